@@ -3,21 +3,23 @@
 Entry points exercised on the real code (from /repo through the overlay importer):
   nipy.algorithms.resample.resample / resample_img2img
   nipy.algorithms.interpolation.ImageInterpolator.evaluate
-  nipy.algorithms.registration.resample.resample   (cubic_spline.c rebuilt from /repo by cshim)
+  nipy.algorithms.registration.resample.resample / cast_array (cubic_spline.c rebuilt from /repo by cshim)
   nipy.labs.datasets.volumes.volume_img.VolumeImg.as_volume_img / resampled_to_img /
-      values_in_world / xyz_ordered
+      values_in_world / xyz_ordered,  volume_grid.VolumeGrid.values_in_world / as_volume_img
   nipy.algorithms.registration.groupwise_registration.resample4d / Realign4dAlgorithm.resample
+  cubic_spline.c: cubic_spline_transform / cubic_spline_sample3d (all boundary-mode triples)
 
 Correspondence: the matrix/offset (or coordinate array) each entry point hands to its numerical
-routine is captured and compared with the Lean model's composition; the output array is compared
-with the model's lattice lookup / linear-field value.  Oracle: the property's clauses computed
-independently with exact fractions (looked-up source value, fill value, analytic linear field,
-target coordmap) plus, for arbitrary maps, an independent scipy interpolation at the exactly
-mapped coordinates.
+routine, the dtype of what it returns, and the output array are compared with the Lean model
+(composition, dtype pipeline with its two rounding rules, lattice lookup under every boundary mode,
+linear-field value); SciPy's index extension, the float->integer conversions and the C sampler
+are tied to the model on their own line kinds.  Oracle: the property's clauses computed
+independently with exact fractions (looked-up source value under the mode's index extension, fill
+value, analytic linear field, target coordmap) plus, for arbitrary maps, an independent scipy
+interpolation of the float64 copy of the data at the exactly mapped coordinates.
 """
 from __future__ import annotations
 
-import itertools
 import warnings
 from fractions import Fraction
 
@@ -25,75 +27,10 @@ import numpy as np
 
 from harness.core import PropertyCheck
 from harness.util import Snapshot, errname, fr, frs, parse_rats
-
-MODES = ["constant", "nearest", "reflect", "wrap"]
-
-
-# ----------------------------------------------------------------------
-# exact affine algebra on n x (n+1) nested lists  [A | b]
-# ----------------------------------------------------------------------
-def F(M):
-    return [[Fraction(x) for x in row] for row in M]
-
-
-def f_comp(a, c):
-    """a o c for [A|b] blocks (a: m x (n+1), c: n x (k+1))"""
-    m, n, k = len(a), len(c), len(c[0]) - 1
-    out = []
-    for i in range(m):
-        row = [sum(a[i][l] * c[l][j] for l in range(n)) for j in range(k)]
-        row.append(sum(a[i][l] * c[l][k] for l in range(n)) + a[i][n])
-        out.append(row)
-    return out
-
-
-def f_apply(a, x):
-    n = len(a[0]) - 1
-    return [sum(a[i][j] * x[j] for j in range(n)) + a[i][n] for i in range(len(a))]
-
-
-def f_inv(a):
-    """exact inverse of a square [A|b] affine; None if singular"""
-    n = len(a)
-    M = [list(a[i][:n]) + [Fraction(int(i == j)) for j in range(n)] for i in range(n)]
-    for c in range(n):
-        p = next((r for r in range(c, n) if M[r][c] != 0), None)
-        if p is None:
-            return None
-        M[c], M[p] = M[p], M[c]
-        pv = M[c][c]
-        M[c] = [x / pv for x in M[c]]
-        for r in range(n):
-            if r != c and M[r][c] != 0:
-                f = M[r][c]
-                M[r] = [x - f * y for x, y in zip(M[r], M[c])]
-    Ai = [row[n:] for row in M]
-    b = [a[i][n] for i in range(n)]
-    return [Ai[i] + [-sum(Ai[i][j] * b[j] for j in range(n))] for i in range(n)]
-
-
-def f_ident(n):
-    return [[Fraction(int(i == j)) for j in range(n)] + [Fraction(0)] for i in range(n)]
-
-
-def H(a):
-    """homogeneous float matrix of an [A|b] block"""
-    a = np.array([[float(x) for x in row] for row in a], dtype=float)
-    m = a.shape[0]
-    h = np.zeros((m + 1, a.shape[1]))
-    h[:m] = a
-    h[m, -1] = 1
-    return h
-
-
-def is_exact(M):
-    """all entries are floats that survive Fraction -> float -> Fraction"""
-    return all(Fraction(float(x)) == x and abs(x) < 2 ** 20 and (x == 0 or abs(x) > 2 ** -12)
-               for row in M for x in row)
-
-
-def tofloat(M):
-    return [[float(x) for x in row] for row in M]
+from harness.props.c04_lib import (CS_MODES, INT_DTYPES, LAYOUTS, LOOSE, MODES, SRC_DTYPES, ArrayProxy, F, H,
+                                   all_idx, base_array, cast_oracle, cs_ext_index, cs_glue, cs_glue4, cs_lib, ext_exact,
+                                   ext_index, f_apply, f_comp, f_ident, f_inv, inside, is_exact, lay_out,
+                                   make_typed, scale_of, tofloat)
 
 
 def aff_txt(M):
@@ -111,6 +48,7 @@ def rand_perm(rng, n):
 
 def rand_dyadic_affine(rng, n, oblique=None, steps=(1, 1, 2, 0.5, 4, 1, 2)):
     """perm . shear . diag with dyadic entries and dyadic offset; float inverse exact"""
+    import scipy.linalg as spl
     for _ in range(200):
         p = rand_perm(rng, n)
         d = [Fraction(rng.choice(steps)) * rng.choice([1, 1, -1]) for _ in range(n)]
@@ -127,7 +65,6 @@ def rand_dyadic_affine(rng, n, oblique=None, steps=(1, 1, 2, 0.5, 4, 1, 2)):
         if inv is None or not is_exact(a) or not is_exact(inv):
             continue
         h = H(a)
-        import scipy.linalg as spl
         ex = H(inv)
         if np.array_equal(np.linalg.inv(h), ex) and np.array_equal(spl.inv(h), ex) \
                 and np.array_equal(np.linalg.inv(h[:n, :n]), ex[:n, :n]):
@@ -135,9 +72,10 @@ def rand_dyadic_affine(rng, n, oblique=None, steps=(1, 1, 2, 0.5, 4, 1, 2)):
     return f_ident(n)
 
 
-def rand_lattice_map(rng, n, src_shape, kind=None):
+def rand_lattice_map(rng, n, src_shape, kind=None, far=False):
     """integer voxel->voxel map Z (signed permutation x integer step + integer shift) and a
-    target shape mostly (not always entirely) inside the source"""
+    target shape mostly (not always entirely) inside the source; `far`: shifts of several array
+    lengths, so that boundary modes are read well outside the field of view"""
     kind = kind or rng.choice(["identity", "flip", "perm", "shift", "subsample", "mixed", "mixed"])
     p = list(range(n))
     sg = [1] * n
@@ -153,6 +91,8 @@ def rand_lattice_map(rng, n, src_shape, kind=None):
         st = [rng.choice([1, 2, 2, 3]) for _ in range(n)]
     if kind in ("shift", "mixed"):
         shift = [rng.choice([-2, -1, 0, 1, 2, 3]) for _ in range(n)]
+    if far:
+        shift = [rng.choice([-3, -2, -1, 0, 1, 2]) * src_shape[i] + rng.choice([-1, 0, 1]) for i in range(n)]
     # source axis i reads target axis p[i]
     Z = [[Fraction(sg[i] * st[i] * int(j == p[i])) for j in range(n)] for i in range(n)]
     tshape = [0] * n
@@ -162,7 +102,7 @@ def rand_lattice_map(rng, n, src_shape, kind=None):
     for i in range(n):
         off = shift[i] + ((src_shape[i] - 1) if sg[i] < 0 else 0)
         Z[i].append(Fraction(off))
-    return Z, tshape, kind
+    return Z, tshape, kind + ("-far" if far else "")
 
 
 def rand_float_affine(rng, n):
@@ -175,26 +115,15 @@ def rand_float_affine(rng, n):
     return [[float(A[i, j]) for j in range(n)] + [float(b[i])] for i in range(n)]
 
 
-def make_data(seed, shape, kind="int"):
-    rs = np.random.RandomState(seed)
-    if kind == "int":
-        return rs.randint(-20, 60, size=shape).astype(float)
-    return rs.randint(-64, 64, size=shape) / 8.0
+def rand_sub_voxel_map(rng, n, sshape):
+    """dyadic voxel map with half / quarter / eighth voxel offsets and steps"""
+    Z = rand_dyadic_affine(rng, n, steps=(1, 1, 0.5, 2, 0.5, 0.25))
+    den = rng.choice([2, 2, 4, 8])
+    for i in range(n):
+        Z[i][n] = Fraction(rng.randrange(-den, den * sshape[i])) / den
+    return Z
 
 
-def all_idx(shape):
-    return list(itertools.product(*[range(s) for s in shape]))
-
-
-def inside(p, shape):
-    return all(0 <= x < s for x, s in zip(p, shape))
-
-
-def scale_of(arr):
-    return max(1.0, float(np.max(np.abs(arr))) if np.size(arr) else 1.0)
-
-
-# ----------------------------------------------------------------------
 class _GenericTransform:
     """a transform with only `apply`/`compose` (no `as_affine`): generic branch"""
 
@@ -208,51 +137,92 @@ class _GenericTransform:
         return _GenericTransform(lambda pts: self.apply(other.apply(pts)))
 
 
+def task_ok_for_w2w(c):
+    return c["via"] in ("as_volume_img", "resampled_to_img", "values_in_world", "resampled_to_grid")
+
+
+def regroutine(is_aff, order, mode, cval):
+    fast = (order, mode, cval) == (3, "constant", 0)
+    if is_aff:
+        return "cspline_resample3d" if fast else "affine_transform"
+    return "cspline_sample3d" if fast else "map_coordinates"
+
+
+def pick_mode(rng):
+    return rng.choice(["constant", "constant", "constant", "constant"] + MODES)
+
+
+def pick_sdtype(rng, allow_bool=True):
+    d = rng.choice(SRC_DTYPES)
+    if d == "bool" and not allow_bool:
+        d = "uint8"
+    return d
+
+
+def int_field(rng, n, sshape, dtype):
+    """integer coefficients [l_1..l_n | l_0] of a field L(p) (voxel coordinates) whose values on
+    the array fit `dtype`"""
+    for _ in range(50):
+        if dtype.startswith("uint"):
+            co = [rng.choice([0, 1, 2, 3]) for _ in range(n)] + [rng.choice([0, 1, 5])]
+        else:
+            co = [rng.choice([0, 1, -2, 2, 3, -1]) for _ in range(n)] + [rng.choice([0, 4, -3])]
+        lo = co[n] + sum(min(0, c * (s - 1)) for c, s in zip(co, sshape))
+        hi = co[n] + sum(max(0, c * (s - 1)) for c, s in zip(co, sshape))
+        info = np.iinfo(dtype)
+        if info.min <= lo and hi <= info.max and any(co[:n]):
+            return co
+    return [1] + [0] * n
+
+
 class C04(PropertyCheck):
     id = "C04"
     title = "Resampling samples the source at the mapped world location"
-    lean_modules = ["NipyVerif.Props.C04"]
+    lean_modules = ["NipyVerif.Props.C04", "NipyVerif.Props.C04B"]
     driver = "Drivers/C04.lean"
-    rule = ("cases are (entry point, source grid, target grid, world transform and its form, order, mode, "
-            "cval, dtype) tuples from a seeded PRNG; lattice cases are built as tgt = T^-1 . src . Z for an "
-            "integer voxel map Z (identity/flip/permutation/shift/sub-sampling), field cases carry a linear "
-            "intensity, generic cases arbitrary float affines; non-trivial = the voxel map is not the identity "
-            "or the transform is not the identity or the order is > 0; distinct by full JSON of the case")
+    rule = ("cases are (entry point, source grid, target grid, world transform and its form, order, boundary mode, "
+            "cval, source dtype, memory layout / container, requested dtype) tuples from a seeded PRNG; lattice "
+            "cases are built as tgt = T^-1 . src . Z for an integer voxel map Z (identity/flip/permutation/shift/"
+            "sub-sampling, also shifted by several array lengths), field cases carry a linear intensity (integer-"
+            "valued for integer dtypes) under half/quarter/eighth-voxel maps, generic cases arbitrary float affines; "
+            "bidx / cast / cs cases tie SciPy's index extension, the float->integer conversions and the C sampler "
+            "to the model; non-trivial = the voxel map is not the identity or the transform is not the identity or "
+            "the order is > 0; distinct by full JSON of the case")
     assumptions = [
-        "the interpolators (scipy.ndimage spline interpolation with its pre-filter, cubic_spline.c) enter the "
-        "theorems only through the hypotheses Interp.at_lattice / FillsOutside / LinearExact; the oracle checks "
-        "those clauses numerically on the real code for every case (tolerance 1e-7 of the data scale)",
+        "the interpolators (scipy.ndimage spline interpolation with its pre-filter, cubic_spline.c's pre-filter) enter "
+        "the theorems only through the hypotheses Interp.at_lattice / FillsOutside / Extends / LinearExact / "
+        "ClampsCoordinate and IsSplineCoef3; the oracle checks those clauses numerically on the real code for every "
+        "case (tolerance 1e-7 of the data scale; 2e-3 for nearest / grid-constant with a pre-filter outside the "
+        "array, which SciPy itself only approximates: scipy issue 13600)",
         "matrix inverses (np.linalg.inv, scipy.linalg.inv, coordmap.inverse) are parameters of the model: the "
         "exact inverse is supplied and verified by the driver; float inverses agree to 1e-9",
         "the homogeneous (n+1)x(n+1) packing (from_matvec / to_matvec) is represented as an (A, b) pair",
+        "float32 outputs are compared with tolerance 2e-6 of the data scale (the model treats floating dtypes as exact)",
         "pyx glue (_cspline_resample3d/_cspline_sample3d/_cspline_transform) cannot be rebuilt: in "
-        "registration.resample it is replaced by ctypes calls into cubic_spline.c rebuilt from the tree under "
-        "test; groupwise_registration uses the installed glue",
+        "registration.resample and groupwise_registration it is replaced by ctypes calls into cubic_spline.c rebuilt "
+        "from the tree under test",
         "VolumeImg.as_volume_img with a 3x3 affine (bounding-box search) and VolumeGrid with non-affine "
         "transforms are oracle-only",
     ]
-    level_note = ("pipeline composition, lattice lookup, fill value, linear-field and coordmap clauses proved for "
-                  "all inputs of the model; interpolator laws are hypotheses (instances: order 0 in any dimension, "
-                  "order 1 in 1-D)")
+    level_note = ("pipeline composition, dtype pipeline (both rounding rules), lattice lookup under every boundary "
+                  "mode, fill value, linear-field, pre-pad, cubic-spline sampler at grid points and coordmap clauses "
+                  "proved for all inputs of the model; interpolator laws are hypotheses (instances: order 0 in any "
+                  "dimension under every mode, order 1 in 1-D)")
     finding_keys = {}
 
     # ------------------------------------------------------------------
     def generate(self, rng, tier):
         q = tier == "quick"
         cases = []
-        n_res, n_reg, n_vol, n_xyz, n_int, n_rl = (600, 520, 360, 140, 200, 30) if q else (4200, 3600, 2400, 900, 1400, 200)
-        for _ in range(n_res):
-            cases.append(self._gen_resample(rng))
-        for _ in range(n_reg):
-            cases.append(self._gen_reg(rng))
-        for _ in range(n_vol):
-            cases.append(self._gen_vol(rng))
-        for _ in range(n_xyz):
-            cases.append(self._gen_xyz(rng))
-        for _ in range(n_int):
-            cases.append(self._gen_interp(rng))
-        for _ in range(n_rl):
-            cases.append(self._gen_realign(rng))
+        counts = dict(resample=700, reg=580, vol=400, xyz=120, interp=280, realign=36, cast=60, cs=80,
+                      refuse=40) if q else \
+            dict(resample=12000, reg=10000, vol=7000, xyz=1500, interp=5000, realign=500, cast=800, cs=1200,
+                 refuse=300)
+        for kind, cnt in counts.items():
+            g = getattr(self, "_gen_" + kind)
+            for _ in range(cnt):
+                cases.append(g(rng))
+        cases += self._gen_bidx_all(rng, q)
         return cases
 
     @staticmethod
@@ -266,11 +236,17 @@ class C04(PropertyCheck):
     def _gen_resample(self, rng):
         n = rng.choice([2, 3, 3, 3, 4])
         sshape = self._shape(rng, n)
-        task = rng.choice(["lookup", "lookup", "lookup", "field", "generic"])
+        task = rng.choice(["lookup", "lookup", "lookup", "field", "field", "generic", "sub", "sub"])
         entry = rng.choice(["resample", "resample", "resample", "img2img"])
         mkind = rng.choice(["matrix", "pair", "affobj", "callable", "cmapobj"])
+        sdtype = pick_sdtype(rng, allow_bool=task != "field")
         src = rand_dyadic_affine(rng, n)
         T = f_ident(n) if (entry == "img2img" or rng.random() < 0.2) else rand_dyadic_affine(rng, n)
+        if n == 4 and entry != "img2img" and rng.random() < 0.5:
+            # a 3-D spatial transform on a 4-D image: the last world axis is left alone
+            T3 = rand_dyadic_affine(rng, 3)
+            T = [T3[i][:3] + [Fraction(0)] + [T3[i][3]] for i in range(3)] + \
+                [[Fraction(0)] * 3 + [Fraction(1), Fraction(0)]]
         if task == "generic":
             srcf = rand_float_affine(rng, n)
             Tf = tofloat(f_ident(n)) if entry == "img2img" else rand_float_affine(rng, n)
@@ -279,38 +255,36 @@ class C04(PropertyCheck):
             zk = "generic"
         else:
             if task == "lookup":
-                Z, tshape, zk = rand_lattice_map(rng, n, sshape)
+                Z, tshape, zk = rand_lattice_map(rng, n, sshape, far=rng.random() < 0.25)
             else:
-                Z = rand_dyadic_affine(rng, n, steps=(1, 1, 0.5, 2, 0.5))
-                # centre roughly: keep the offset small so that part of the target is in the field of view
-                for i in range(n):
-                    Z[i][n] = Fraction(rng.randrange(-2, 2 * sshape[i])) / 2
+                Z = rand_sub_voxel_map(rng, n, sshape)
                 tshape = self._shape(rng, n)
-                zk = "dyadic"
+                zk = "subvoxel"
             tgt = f_comp(f_inv(T), f_comp(src, Z))
             if not is_exact(tgt):
                 T = f_ident(n)
                 tgt = f_comp(src, Z)
             srcf, Tf, tgtf = tofloat(src), tofloat(T), tofloat(tgt)
-        order = 1 if task == "field" else rng.choice([0, 1, 2, 3, 3, 4, 5])
-        mode = rng.choice(["constant", "constant", "constant", "nearest", "reflect", "wrap"])
+        order = 1 if task == "field" else rng.choice([0, 1, 1]) if task == "sub" else rng.choice([0, 1, 2, 3, 3, 4, 5])
         c = {"kind": "resample", "entry": entry, "n": n, "sshape": sshape, "tshape": tshape, "src": srcf,
-             "T": Tf, "tgt": tgtf, "mkind": mkind, "task": task, "zkind": zk, "order": order, "mode": mode,
-             "cval": rng.choice([0.0, 0.0, -7.5, 100.0, 3.0]), "dseed": rng.randrange(10 ** 6),
-             "names": rng.choice(["ijk", "kji", "xyz"])}
+             "T": Tf, "tgt": tgtf, "mkind": mkind, "task": task, "zkind": zk, "order": order, "mode": pick_mode(rng),
+             "cval": rng.choice([0.0, 0.0, -7.5, 100.0, 3.0, 2.5, -0.25]), "dseed": rng.randrange(10 ** 6),
+             "names": rng.choice(["ijk", "kji", "xyz"]), "sdtype": sdtype, "layout": rng.choice(LAYOUTS)}
         if task == "field":
-            c["coef"] = [rng.choice([0.0, 1.0, -2.0, 0.5, 3.0]) for _ in range(n)] + [rng.choice([0.0, 4.0, -1.5])]
+            if sdtype in INT_DTYPES:
+                c["lvox"] = int_field(rng, n, sshape, sdtype)
+            else:
+                c["coef"] = [rng.choice([0.0, 1.0, -2.0, 0.5, 3.0]) for _ in range(n)] + [rng.choice([0.0, 4.0, -1.5])]
         if entry == "img2img" and rng.random() < 0.08:
             c["mismatch"] = True     # refusal branch: different world dimension
         return c
 
     def _gen_reg(self, rng):
-        n = 3
         sshape = self._shape(rng, 3)
-        task = rng.choice(["lookup", "lookup", "lookup", "field", "generic"])
+        task = rng.choice(["lookup", "lookup", "lookup", "field", "field", "generic", "sub", "sub"])
         mov = rand_dyadic_affine(rng, 3)
         movvox, refvox = rng.random() < 0.35, rng.random() < 0.35
-        tkind = rng.choice(["none", "matrix", "matrix", "affobj", "generic", "generic"])
+        tkind = rng.choice(["none", "matrix", "matrix", "affobj", "rigidobj", "generic", "generic"])
         if tkind == "none" and task != "generic":
             refvox = False      # identity transform: the lattice map is realised by the reference affine
         if task == "generic":
@@ -321,18 +295,21 @@ class C04(PropertyCheck):
             zk = "generic"
         else:
             T = f_ident(3) if tkind == "none" or rng.random() < 0.15 else rand_dyadic_affine(rng, 3)
+            if tkind == "rigidobj":
+                # a rigid transform that is exact in floats: a pure translation
+                T = [[Fraction(int(i == j)) for j in range(3)] + [Fraction(rng.randrange(-8, 9)) / 2] for i in range(3)]
             if task == "lookup":
-                Z, tshape, zk = rand_lattice_map(rng, 3, sshape)
+                Z, tshape, zk = rand_lattice_map(rng, 3, sshape, far=rng.random() < 0.2)
             else:
-                Z = rand_dyadic_affine(rng, 3, steps=(1, 1, 0.5, 2, 0.5))
-                for i in range(3):
-                    Z[i][3] = Fraction(rng.randrange(-2, 2 * sshape[i])) / 2
+                Z = rand_sub_voxel_map(rng, 3, sshape)
                 tshape = self._shape(rng, 3)
-                zk = "dyadic"
+                zk = "subvoxel"
             # Tv = [inv(mov)] . T . [ref] = Z   =>   ref-side factor R = T^-1 . [mov] . Z
             left = f_ident(3) if movvox else mov
             R = f_comp(f_inv(T), f_comp(left, Z))
             if refvox:
+                if tkind == "rigidobj":
+                    return self._gen_reg(rng)
                 # transform maps from reference voxels: fold R into T, reference affine is free
                 T = f_comp(T, R)
                 ref = rand_dyadic_affine(rng, 3)
@@ -341,20 +318,32 @@ class C04(PropertyCheck):
             if not (is_exact(T) and is_exact(ref)):
                 return self._gen_reg(rng)
             movf, Tf, reff = tofloat(mov), tofloat(T), tofloat(ref)
-        order = 1 if task == "field" else rng.choice([0, 1, 2, 3, 3, 3, 4, 5])
-        mode = rng.choice(["constant", "constant", "constant", "nearest", "reflect"])
-        cval = rng.choice([0.0, 0.0, 0.0, 2.5, -4.0])
-        if task != "field" and rng.random() < 0.3:
+        order = 1 if task == "field" else rng.choice([0, 1, 1]) if task == "sub" else rng.choice([0, 1, 2, 3, 3, 3, 4, 5])
+        mode = pick_mode(rng)
+        cval = rng.choice([0.0, 0.0, 0.0, 2.5, -4.0, -7.5])
+        if task not in ("field", "sub") and rng.random() < 0.3:
             order, mode, cval = 3, "constant", 0.0      # the cubic-spline short cut
-        return {"kind": "reg", "sshape": sshape, "tshape": tshape, "mov": movf, "T": Tf, "ref": reff,
-                "movvox": movvox, "refvox": refvox, "tkind": tkind, "task": task, "zkind": zk, "order": order,
-                "mode": mode, "cval": cval, "dseed": rng.randrange(10 ** 6),
-                "dtype": rng.choice([None, None, "float64", "float32", "int16", "uint8"]),
-                "ref_as_tuple": rng.random() < 0.5, "ref_none": False}
+        sdtype = pick_sdtype(rng, allow_bool=task != "field")
+        asked = rng.choice([None, None, None, "float64", "float32", "int16", "uint8", "int32", "int8", "uint16",
+                            "int64"])
+        if sdtype == "bool" and asked is None:
+            asked = "float64"
+        if (asked or sdtype).startswith("uint") and cval < 0:
+            cval = 2.5        # a fill value below an unsigned output dtype's range has no defined meaning
+        c = {"kind": "reg", "sshape": sshape, "tshape": tshape, "mov": movf, "T": Tf, "ref": reff,
+             "movvox": movvox, "refvox": refvox, "tkind": tkind, "task": task, "zkind": zk, "order": order,
+             "mode": mode, "cval": cval, "dseed": rng.randrange(10 ** 6), "dtype": asked, "sdtype": sdtype,
+             "layout": rng.choice(LAYOUTS), "ref_as_tuple": rng.random() < 0.5}
+        if task == "field":
+            if sdtype in INT_DTYPES:
+                c["lvox"] = int_field(rng, 3, sshape, sdtype)
+            else:
+                c["coef"] = [rng.choice([0.0, 1.0, -2.0, 0.5, 3.0]) for _ in range(3)] + [rng.choice([0.0, 4.0, -1.5])]
+        return c
 
     def _gen_vol(self, rng):
         sshape = self._shape(rng, 3)
-        task = rng.choice(["lookup", "lookup", "lookup", "generic"])
+        task = rng.choice(["lookup", "lookup", "lookup", "generic", "generic"])
         src = rand_dyadic_affine(rng, 3)
         if task == "lookup":
             Z, tshape, zk = rand_lattice_map(rng, 3, sshape)
@@ -362,12 +351,22 @@ class C04(PropertyCheck):
                 Z, tshape, zk = f_ident(3), list(sshape), "same-affine"
             tgt = f_comp(src, Z)
             srcf, tgtf = tofloat(src), tofloat(tgt)
+        elif rng.random() < 0.5:
+            Z = rand_sub_voxel_map(rng, 3, sshape)
+            tgt = f_comp(src, Z)
+            if not is_exact(tgt):
+                return self._gen_vol(rng)
+            srcf, tgtf, tshape, zk = tofloat(src), tofloat(tgt), self._shape(rng, 3), "subvoxel"
         else:
             srcf, tgtf, tshape, zk = rand_float_affine(rng, 3), rand_float_affine(rng, 3), self._shape(rng, 3), "generic"
         return {"kind": "vol", "sshape": sshape, "tshape": tshape, "src": srcf, "tgt": tgtf, "task": task,
                 "zkind": zk, "interp": rng.choice(["nearest", "continuous"]),
-                "via": rng.choice(["as_volume_img", "as_volume_img", "resampled_to_img", "values_in_world"]),
-                "extra": rng.choice([[], [], [2], [2, 2]]), "dseed": rng.randrange(10 ** 6)}
+                "via": rng.choice(["as_volume_img", "as_volume_img", "resampled_to_img", "values_in_world",
+                                   "grid_values", "grid_as_volume_img", "grid_resampled_to_img", "resampled_to_grid"]),
+                # a world-to-world affine applied first with composed_with_transform (no resampling)
+                "w2w": tofloat(rand_dyadic_affine(rng, 3, steps=(1, 1, 2, 0.5))) if rng.random() < 0.3 else None,
+                "extra": rng.choice([[], [], [2], [2, 2]]), "dseed": rng.randrange(10 ** 6),
+                "sdtype": pick_sdtype(rng), "layout": rng.choice(LAYOUTS)}
 
     def _gen_xyz(self, rng):
         sshape = self._shape(rng, 3)
@@ -377,7 +376,7 @@ class C04(PropertyCheck):
         b = [Fraction(rng.randrange(-10, 11)) / 2 for _ in range(3)]
         aff = [A[i] + [b[i]] for i in range(3)]
         return {"kind": "xyz", "sshape": sshape, "aff": tofloat(aff), "dseed": rng.randrange(10 ** 6),
-                "rot": rng.random() < 0.08}
+                "rot": rng.random() < 0.08, "sdtype": pick_sdtype(rng), "layout": rng.choice(LAYOUTS)}
 
     def _gen_interp(self, rng):
         n = rng.choice([2, 3, 3])
@@ -385,53 +384,121 @@ class C04(PropertyCheck):
         src = rand_dyadic_affine(rng, n)
         npts = rng.choice([1, 4, 9, 16])
         pts = []
+        reach = rng.choice([2, 2, 6, 15])
         for _ in range(npts):
             r = rng.random()
-            if r < 0.6:      # world position of a (possibly outside) voxel centre
-                v = [Fraction(rng.randrange(-2, s + 2)) for s in sshape]
+            if r < 0.7:      # world position of a (possibly far outside) voxel centre
+                v = [Fraction(rng.randrange(-reach, s + reach)) for s in sshape]
             else:            # half-voxel positions
                 v = [Fraction(rng.randrange(-2, 2 * s + 2)) / 2 for s in sshape]
             pts.append([float(x) for x in f_apply(src, v)])
         return {"kind": "interp", "n": n, "sshape": sshape, "src": tofloat(src), "pts": pts,
-                "order": rng.choice([0, 1, 2, 3, 3, 4, 5]),
-                "mode": rng.choice(["constant", "constant", "nearest", "nearest", "reflect", "wrap"]),
-                "cval": rng.choice([0.0, -3.0, 50.0]), "dseed": rng.randrange(10 ** 6)}
+                "order": rng.choice([0, 1, 2, 3, 3, 4, 5]), "mode": pick_mode(rng),
+                "cval": rng.choice([0.0, -3.0, 50.0, -7.5]), "dseed": rng.randrange(10 ** 6),
+                "sdtype": pick_sdtype(rng), "layout": rng.choice(LAYOUTS)}
 
     def _gen_realign(self, rng):
         sshape = [rng.choice([4, 5, 6]), rng.choice([4, 5, 7]), rng.choice([4, 6])]
         d = [Fraction(rng.choice([1, 2, 0.5, 3])) for _ in range(3)]
         aff = [[d[j] * int(i == j) for j in range(3)] + [Fraction(rng.randrange(-6, 7))] for i in range(3)]
         nt = rng.choice([1, 2, 3])
-        shifts = [[rng.choice([0, 0, 1, -1, 2]) for _ in range(3)] if rng.random() < 0.5 else [0, 0, 0]
-                  for _ in range(nt)]
+        big = rng.random() < 0.4
+        shifts = [[rng.choice([0, 0, 1, -1, 2] + ([-5, 4, 7, -9] if big else [])) for _ in range(3)]
+                  if rng.random() < 0.6 else [0, 0, 0] for _ in range(nt)]
         return {"kind": "realign", "sshape": sshape, "aff": tofloat(aff), "nt": nt, "shifts": shifts,
-                "dseed": rng.randrange(10 ** 6)}
+                "dseed": rng.randrange(10 ** 6), "sdtype": pick_sdtype(rng, allow_bool=False),
+                "lazy": rng.random() < 0.3, "tinterp": rng.random() < 0.4, "tr": rng.choice([1.0, 2.0, 0.5])}
+
+    def _gen_bidx_all(self, rng, quick):
+        out = []
+        lens = [1, 2, 3, 4, 5, 7] if quick else list(range(1, 13))
+        for mode in MODES:
+            for n in lens:
+                out.append({"kind": "bidx", "mode": mode, "len": n, "idx": list(range(-3 * n - 2, 4 * n + 3))})
+        return out
+
+    def _gen_cast(self, rng):
+        dtype = rng.choice(INT_DTYPES + ["float32", "float64"])
+        vals = []
+        info = np.iinfo(dtype) if dtype in INT_DTYPES else None
+        for _ in range(rng.choice([4, 8, 12])):
+            r = rng.random()
+            if r < 0.35:
+                v = Fraction(rng.randrange(-40, 41) * 2 + 1) / 2            # ties
+            elif r < 0.6:
+                v = Fraction(rng.randrange(-2000, 2000)) / 8
+            elif r < 0.8 and info is not None and dtype not in ("int64", "uint64", "uint32", "int32"):
+                v = Fraction(rng.choice([info.min, info.max])) + Fraction(rng.randrange(-5, 6)) / 2   # range ends
+            else:
+                v = Fraction(rng.randrange(-300, 300))
+            vals.append(float(v))
+        return {"kind": "cast", "dtype": dtype, "vals": vals}
+
+    def _gen_cs(self, rng):
+        shape = [rng.choice([1, 2, 3, 4, 5]), rng.choice([1, 2, 3, 4]), rng.choice([1, 2, 3, 5])]
+        modes = [rng.choice([0, 1, 2]) for _ in range(3)]
+        pts = []
+        for _ in range(rng.choice([4, 8, 12])):
+            r = rng.random()
+            if r < 0.6:
+                pts.append([float(rng.randrange(-2 * s - 2, 3 * s + 2)) for s in shape])
+            else:
+                pts.append([rng.randrange(-8, 8 * s + 8) / 4.0 for s in shape])
+        return {"kind": "cs", "shape": shape, "modes": modes, "pts": pts, "dseed": rng.randrange(10 ** 6),
+                "sdtype": pick_sdtype(rng, allow_bool=False), "layout": rng.choice(["C", "F", "strided", "neg"])}
+
+    def _gen_refuse(self, rng):
+        n = rng.choice([2, 3])
+        what = rng.choice(["resample-matrix", "resample-matrix", "resample-pair", "reg-matrix", "reg-ref4d",
+                           "img2img-dim"])
+        rows, cols = rng.choice([(n + 1, n + 2), (n, n + 1), (n + 2, n + 1), (n, n), (n + 2, n + 2), (n + 1, n + 1)])
+        return {"kind": "refuse", "what": what, "n": n, "rows": rows, "cols": cols, "dseed": rng.randrange(10 ** 6)}
 
     # ------------------------------------------------------------------
     def run_case(self, case):
         warnings.filterwarnings("ignore")
         return getattr(self, "_run_" + case["kind"])(case)
 
-    # ---- shared oracle pieces ------------------------------------------
+    # ---- shared pieces ---------------------------------------------------
     @staticmethod
-    def _expect_lookup(M, tshape, data, cval, const):
-        """exact lattice lookup: list of (value | None) per target voxel, C order"""
+    def _typed(c, shape, values=None):
+        """(container handed to nipy, float64 copy of the values)"""
+        dt = c.get("sdtype", "float64")
+        arr = make_typed(c["dseed"], shape, dt) if values is None else np.asarray(values).astype(dt)
+        if values is not None and not np.array_equal(np.asarray(arr, float), np.asarray(values, float)):
+            raise AssertionError("field values not representable in " + dt)
+        obj = lay_out(arr, c.get("layout", "C"))
+        return obj, np.asarray(arr, dtype=np.float64)
+
+    @staticmethod
+    def _expect_lookup(M, tshape, data, cval, mode="constant", order=0, cs=None):
+        """exact lattice lookup under the boundary mode: list of (value | (value, 'loose') | None)
+        per target voxel, C order.  cs = (mx, my, mz): cubic_spline.c boundary modes instead."""
         out = []
         sshape = data.shape
         for v in all_idx(tshape):
             x = f_apply(M, [Fraction(t) for t in v])
-            if all(c.denominator == 1 for c in x):
-                p = tuple(int(c) for c in x)
-                if inside(p, sshape):
-                    out.append(float(data[p]))
-                else:
-                    out.append(float(cval) if const else None)
-            else:
+            if not all(c.denominator == 1 for c in x):
                 out.append(None)
+                continue
+            p = tuple(int(c) for c in x)
+            if inside(p, sshape):
+                out.append(float(data[p]))
+                continue
+            if cs is not None:
+                q = [cs_ext_index(m, s - 1, t) for m, s, t in zip(cs, sshape, p)]
+                out.append(0.0 if any(t is None for t in q) else float(data[tuple(q)]))
+                continue
+            q = [ext_index(mode, s, t) for s, t in zip(sshape, p)]
+            e = float(cval) if any(t is None for t in q) else float(data[tuple(q)])
+            if mode == "constant" or ext_exact(mode, order):
+                out.append(e)
+            else:
+                out.append((e, "loose"))
         return out
 
     @staticmethod
-    def _border_mask(M, tshape, sshape):
+    def _border_mask(M, tshape, sshape, wrap=False, half=False):
         """target voxels mapped onto the border of the field of view (some coordinate exactly 0 or
         shape-1): when the implementation's own arithmetic is inexact (Affine objects re-built from a
         matrix) the computed coordinate may fall either side, so no claim is made there"""
@@ -439,55 +506,83 @@ class C04(PropertyCheck):
         for v in all_idx(tshape):
             x = f_apply(M, [Fraction(t) for t in v])
             out.append(any(abs(x[i]) < Fraction(1, 10 ** 6) or abs(x[i] - (sshape[i] - 1)) < Fraction(1, 10 ** 6)
+                           or (wrap and not (0 <= x[i] <= sshape[i] - 1))      # legacy wrap: every period is a seam
+                           or (half and abs(x[i] - (x[i].numerator // x[i].denominator) - Fraction(1, 2))
+                               < Fraction(1, 10 ** 6))                          # order 0: rounding ties
                            for i in range(len(sshape))))
         return out
 
     @staticmethod
-    def _check_expected(name, got, exp, tol, what):
+    def _check_expected(name, got, exp, tol, what, scale=1.0):
         got = np.asarray(got, dtype=float).ravel()
         if got.size != len(exp):
             return f"{name}: output has {got.size} samples, target grid has {len(exp)}"
         for k, e in enumerate(exp):
             if e is None:
                 continue
-            if not (abs(got[k] - e) <= tol):
+            t = tol
+            if isinstance(e, tuple):
+                e, t = e[0], max(tol, LOOSE * scale)
+            if not (abs(got[k] - e) <= t):
                 return f"{name}: target voxel #{k} holds {got[k]!r} but {what} is {e!r}"
         return None
 
     @staticmethod
-    def _lookup_line_tail(tshape, data, cval, const=True):
-        return (f"lookup {' '.join(map(str, tshape))} {' '.join(map(str, data.shape))} "
-                f"{frs(data.ravel().tolist())} {fr(cval)} {1 if const else 0}")
+    def _lookup_tail(sdt, asked, order, mode, tshape, data, cval):
+        return (f"lookup {sdt} {asked or 'none'} {order} {mode} {' '.join(map(str, tshape))} "
+                f"{' '.join(map(str, data.shape))} {frs(data.ravel().tolist())} {fr(cval)}")
 
     @staticmethod
-    def _field_parts(coef, src, M, tshape, sshape, cval, const):
-        """linear intensity c(world): L = c o src on source voxels; expected c(src(M v))"""
+    def _sub_tail(sdt, asked, order, mode, tshape, data, cval):
+        return (f"{'lin1' if order == 1 else 'near0'} {sdt} {asked or 'none'} {mode} {' '.join(map(str, tshape))} "
+                f"{' '.join(map(str, data.shape))} {frs(data.ravel().tolist())} {fr(cval)}")
+
+    @staticmethod
+    def _field_tail(sdt, asked, mode, tshape, sshape, L, cval):
+        return (f"field {sdt} {asked or 'none'} {mode} {' '.join(map(str, tshape))} "
+                f"{' '.join(map(str, sshape))} {aff_txt(L)} {fr(cval)}")
+
+    @staticmethod
+    def _field_parts(c, src, M, tshape, sshape, cval, mode):
+        """linear intensity: L on source voxels (given directly for integer dtypes, c o src
+        otherwise); expected L(M v) in the field of view, the fill value outside for `constant`,
+        L at the clamped coordinate for `nearest`"""
         n = len(src)
-        cf = [[Fraction(x) for x in coef]]
-        L = f_comp(cf, src)            # 1 x (n+1)
+        if "lvox" in c:
+            L = [[Fraction(x) for x in c["lvox"]]]
+        else:
+            L = f_comp([[Fraction(x) for x in c["coef"]]], src)            # 1 x (n+1)
         exp = []
         for v in all_idx(tshape):
             x = f_apply(M, [Fraction(t) for t in v])
             if all(0 <= x[i] <= sshape[i] - 1 for i in range(n)):
                 exp.append(float(f_apply(L, x)[0]))
+            elif mode == "constant":
+                exp.append(float(cval))
+            elif mode == "nearest":
+                xc = [min(max(x[i], Fraction(0)), Fraction(sshape[i] - 1)) for i in range(n)]
+                exp.append(float(f_apply(L, xc)[0]))
             else:
-                near = any(-1 < x[i] < 0 or sshape[i] - 1 < x[i] < sshape[i] for i in range(n))
-                exp.append(None if (near and not const) or not const else float(cval))
-        data = np.array([float(f_apply(L, [Fraction(t) for t in p])[0]) for p in all_idx(sshape)]).reshape(sshape)
-        return L, exp, data
+                exp.append(None)
+        vals = np.array([float(f_apply(L, [Fraction(t) for t in p])[0]) for p in all_idx(sshape)]).reshape(sshape)
+        return L, exp, vals
 
     @staticmethod
-    def _generic_ref(data, M, tshape, order, mode, cval):
-        """independent interpolation at the exactly mapped coordinates"""
+    def _generic_ref(data, M, tshape, order, mode, cval, exact=False):
+        """independent interpolation (of the float64 copy) at the exactly mapped coordinates"""
         from scipy.ndimage import map_coordinates
         idx = all_idx(tshape)
         coords = np.array([[float(c) for c in f_apply(M, [Fraction(t) for t in v])] for v in idx]).T
-        ref = map_coordinates(data, coords, order=order, mode=mode, cval=cval)
+        ref = map_coordinates(np.asarray(data, np.float64), coords, order=order, mode=mode, cval=cval)
         n = data.ndim
-        # voxels whose coordinate is within 1e-6 of the field-of-view border are ambiguous in floats
+        # voxels whose coordinate is within 1e-6 of the field-of-view border (or, for the
+        # grid-constant taper, within one voxel outside it) are ambiguous in floats
         amb = np.zeros(len(idx), bool)
-        for i in range(n):
+        for i in range(0 if exact else n):      # exact dyadic maps: both sides compute the same coordinates
             amb |= (np.abs(coords[i]) < 1e-6) | (np.abs(coords[i] - (data.shape[i] - 1)) < 1e-6)
+            if mode in ("grid-constant", "wrap", "grid-wrap", "reflect", "grid-mirror"):
+                amb |= (np.abs(coords[i] + 1) < 1e-6) | (np.abs(coords[i] - data.shape[i]) < 1e-6) \
+                    | (np.abs(coords[i] + 0.5) < 1e-6) | (np.abs(coords[i] - data.shape[i] + 0.5) < 1e-6)
         return [None if amb[k] else float(ref[k]) for k in range(len(idx))]
 
     # ---- nipy.algorithms.resample --------------------------------------
@@ -499,7 +594,7 @@ class C04(PropertyCheck):
         src, T, tgt = F(c["src"]), F(c["T"]), F(c["tgt"])
         srcInv = f_inv(src)
         M = f_comp(srcInv, f_comp(T, tgt))
-        const = c["mode"] == "constant"
+        mode, order, sdt = c["mode"], c["order"], c.get("sdtype", "float64")
         names = {"ijk": "ijkl", "kji": "lkji", "xyz": "xyzt"}[c["names"]][:n]
         wnames = ["w%d" % i for i in range(n)]
         vcs = CoordinateSystem(list(names), "vox")
@@ -507,10 +602,11 @@ class C04(PropertyCheck):
         swcs = CoordinateSystem(wnames, "srcworld")
         twcs = swcs if c["entry"] == "img2img" else CoordinateSystem(["u%d" % i for i in range(n)], "tgtworld")
         if c["task"] == "field":
-            L, fexp, data = self._field_parts(c["coef"], src, M, tshape, sshape, c["cval"], const)
+            L, fexp, vals = self._field_parts(c, src, M, tshape, sshape, c["cval"], mode)
+            obj, data = self._typed(c, sshape, vals)
         else:
-            data = make_data(c["dseed"], sshape)
-        img = Image(data.copy(), AffineTransform(vcs, swcs, H(src)))
+            obj, data = self._typed(c, sshape)
+        img = Image(obj, AffineTransform(vcs, swcs, H(src)))
         tcm = AffineTransform(tvcs, twcs, H(tgt))
         Th = H(T)
         mk = c["mkind"]
@@ -535,7 +631,7 @@ class C04(PropertyCheck):
             cap["mc"] = (np.array(coords, float), tuple(inp.shape), kw)
             return o_mc(inp, coords, **kw)
 
-        snap = Snapshot(data=img.get_fdata(), taff=tcm.affine, saff=img.coordmap.affine)
+        snap = Snapshot(data=base_array(obj), taff=tcm.affine, saff=img.coordmap.affine)
         R.affine_transform, I.map_coordinates = at, mc
         err = None
         try:
@@ -546,16 +642,16 @@ class C04(PropertyCheck):
                     timg = Image(np.zeros(tshape), tcm2)
                 else:
                     timg = Image(np.zeros(tshape), tcm)
-                out = R.resample_img2img(img, timg, order=c["order"], mode=c["mode"], cval=c["cval"])
+                out = R.resample_img2img(img, timg, order=order, mode=mode, cval=c["cval"])
             else:
-                out = R.resample(img, tcm, mapping, tuple(tshape), order=c["order"], mode=c["mode"], cval=c["cval"])
+                out = R.resample(img, tcm, mapping, tuple(tshape), order=order, mode=mode, cval=c["cval"])
         except Exception as e:   # noqa
             err = e
         finally:
             R.affine_transform, I.map_coordinates = o_at, o_mc
         mut = snap.changed()
         tags = ["resample", "entry=" + c["entry"], "mapping=" + mk, "task=" + c["task"], "z=" + c["zkind"],
-                f"order={c['order']}", "mode=" + c["mode"], f"dim={n}"]
+                f"order={order}", "mode=" + mode, f"dim={n}", "sdtype=" + sdt, "layout=" + c.get("layout", "C")]
         base_args = f"{aff_txt(srcInv)} {aff_txt(src)}"
         if c["entry"] == "img2img":
             sop, top = n, n + (1 if c.get("mismatch") else 0)
@@ -569,19 +665,21 @@ class C04(PropertyCheck):
                         "nontrivial": True, "tags": tags + ["refused"], "mutated": mut}
             return {"lines": [], "impl": [], "nontrivial": True, "tags": tags + ["raised"],
                     "oracle": f"{c['entry']} raised {type(err).__name__}: {err} on a valid request "
-                              f"(mapping given as {mk}, order {c['order']}, mode {c['mode']})"}
+                              f"(mapping given as {mk}, order {order}, mode {mode}, image data {sdt}, "
+                              f"{c.get('layout', 'C')})"}
         if c.get("mismatch"):
             return {"lines": [], "impl": [], "nontrivial": True, "tags": tags,
                     "oracle": "resample_img2img accepted images whose world dimensions differ"}
-        arr = np.asarray(out.get_fdata(), dtype=float)
+        raw = np.asarray(out.get_fdata())
+        arr = np.asarray(raw, dtype=float)
         lines, impl = [], []
         interp_path = c["entry"] != "img2img" and mk in ("callable", "cmapobj")
         # 1. what was handed to the numerical routine
         if interp_path:
             if "mc" in cap:
                 coords, kshape, kw = cap["mc"]
-                lines.append(f"resamplecoords {n} {n} {base_args} {aff_txt(T)} {aff_txt(tgt)} {c['order']} "
-                             f"{c['mode']} {' '.join(map(str, tshape))}")
+                lines.append(f"resamplecoords {n} {n} {base_args} {aff_txt(T)} {aff_txt(tgt)} {order} "
+                             f"{mode} {' '.join(map(str, tshape))}")
                 impl.append(("coords", coords.T.ravel().tolist()))
             lines.append(head + " mat"); impl.append(("path", "interpolator"))
         else:
@@ -594,41 +692,50 @@ class C04(PropertyCheck):
                              np.hstack([A, b.reshape(-1, 1)]).ravel().tolist()))
             else:
                 lines.append(head + " mat"); impl.append(("path", "none"))
+        pre = "" if c["entry"] == "img2img" else ("affine_transform " if not interp_path else "interpolator ")
+        # 1b. the dtype of what is returned
+        lines.append(head + f" dtype {sdt} none {order}")
+        impl.append(("dtype", pre, raw.dtype.name))
         # 2. the values
         fail = None
         if out.coordmap != tcm:
             fail = f"{c['entry']}: result coordmap differs from the target coordmap"
+        elif (out.coordmap.function_domain.coord_names != tcm.function_domain.coord_names
+              or out.coordmap.function_range.coord_names != tcm.function_range.coord_names
+              or out.coordmap.function_domain.name != "tvox" or out.coordmap.function_range.name != twcs.name
+              or out.coordmap.function_domain.coord_dtype != tcm.function_domain.coord_dtype):
+            fail = f"{c['entry']}: result coordinate systems (names / dtype) are not the target's"
         elif list(arr.shape) != list(tshape):
             fail = f"{c['entry']}: result shape {arr.shape} is not the requested shape {tuple(tshape)}"
-        tol = 1e-7 * scale_of(data)
-        pre = "" if c["entry"] == "img2img" else ("affine_transform " if not interp_path else "interpolator ")
+        sc = scale_of(data)
+        tol = 1e-7 * sc
+        who = (f"{c['entry']}(mapping as {mk}, order {order}, mode {mode}, cval {c['cval']}, image data {sdt} "
+               f"[{c.get('layout', 'C')}]")
         if c["task"] == "lookup":
-            exp = self._expect_lookup(M, tshape, data, c["cval"], const)
-            if c["mode"] == "wrap":
-                exp_or = [None] * len(exp)   # scipy's 'wrap' is not consistent between pre-filter and lookup
-            else:
-                exp_or = exp
+            exp = self._expect_lookup(M, tshape, data, c["cval"], mode, order)
             fail = fail or self._check_expected(
-                f"{c['entry']}(mapping as {mk}, order {c['order']}, mode {c['mode']}, {c['zkind']} map)", arr, exp_or,
-                tol, "the source sample at the mapped grid point (fill value outside)")
-            lines.append(head + " " + self._lookup_line_tail(tshape, data, c["cval"], const))
-            impl.append(("vals", pre, arr.ravel().tolist(), tol, const and c["mode"] != "wrap",
-                         c["mode"] != "wrap"))
+                who + f", {c['zkind']} map)", arr, exp, tol,
+                "the source sample at the mapped grid point (boundary mode / fill value outside)", sc)
+            lines.append(head + " " + self._lookup_tail(sdt, None, order, mode, tshape, data, c["cval"]))
+            impl.append(("tvals", pre, raw.dtype.name, arr.ravel().tolist(), tol, [], False))
         elif c["task"] == "field":
             fail = fail or self._check_expected(
-                f"{c['entry']}(mapping as {mk}, order 1, mode {c['mode']}) of a linear intensity field", arr, fexp,
-                tol, "the field at the mapped world position")
-            lines.append(head + f" field {' '.join(map(str, tshape))} {' '.join(map(str, sshape))} "
-                         f"{aff_txt(L)} {fr(c['cval'])} {1 if const else 0}")
-            impl.append(("vals", pre, arr.ravel().tolist(), tol, True, True))
+                who + ") of a linear intensity field", arr, fexp, tol,
+                "the field at the mapped world position (the fill value outside the field of view)", sc)
+            lines.append(head + " " + self._field_tail(sdt, None, mode, tshape, sshape, L, c["cval"]))
+            impl.append(("tvals", pre, raw.dtype.name, arr.ravel().tolist(), tol, [], False))
         else:
-            if not (c["order"] > 1 and not const):
-                ref = self._generic_ref(data, M, tshape, c["order"], c["mode"], c["cval"])
-                fail = fail or self._check_expected(
-                    f"{c['entry']}(mapping as {mk}, order {c['order']}, mode {c['mode']})", arr, ref,
-                    1e-6 * scale_of(data), "the source interpolated at the mapped location")
+            ref = self._generic_ref(data, M, tshape, order, mode, c["cval"], exact=c["task"] == "sub")
+            if order > 1 and mode in ("nearest", "grid-constant"):
+                ref = [None if e is None else (e, "loose") for e in ref]
+            fail = fail or self._check_expected(
+                who + ")", arr, ref, 1e-6 * sc, "the source interpolated at the mapped location", sc)
+            if c["task"] == "sub":
+                # orders 0 and 1 are in the model for every target voxel (exact dyadic map)
+                lines.append(head + " " + self._sub_tail(sdt, None, order, mode, tshape, data, c["cval"]))
+                impl.append(("tvals", pre, raw.dtype.name, arr.ravel().tolist(), tol, [], False))
         return {"lines": lines, "impl": impl, "oracle": fail,
-                "nontrivial": c["zkind"] != "identity" or c["order"] > 0, "tags": tags, "mutated": mut}
+                "nontrivial": c["zkind"] != "identity" or order > 0, "tags": tags, "mutated": mut}
 
     # ---- ImageInterpolator ---------------------------------------------
     def _run_interp(self, c):
@@ -637,9 +744,10 @@ class C04(PropertyCheck):
         n, sshape = c["n"], c["sshape"]
         src = F(c["src"])
         srcInv = f_inv(src)
-        data = make_data(c["dseed"], sshape)
-        img = Image(data.copy(), AffineTransform(CoordinateSystem(list("ijk"[:n]), "v"),
-                                                 CoordinateSystem(list("xyz"[:n]), "w"), H(src)))
+        mode, order, sdt = c["mode"], c["order"], c.get("sdtype", "float64")
+        obj, data = self._typed(c, sshape)
+        img = Image(obj, AffineTransform(CoordinateSystem(list("ijk"[:n]), "v"),
+                                         CoordinateSystem(list("xyz"[:n]), "w"), H(src)))
         cap = {}
         o_mc = I.map_coordinates
 
@@ -648,23 +756,25 @@ class C04(PropertyCheck):
             return o_mc(inp, coords, **kw)
 
         pts = np.array(c["pts"], float).T        # (n, N)
+        snap = Snapshot(data=base_array(obj))
         I.map_coordinates = mc
         try:
-            interp = I.ImageInterpolator(img, order=c["order"], mode=c["mode"], cval=c["cval"])
-            vals = np.asarray(interp.evaluate(pts.copy()), float)
+            interp = I.ImageInterpolator(img, order=order, mode=mode, cval=c["cval"])
+            raw = np.asarray(interp.evaluate(pts.copy()))
         except Exception as e:   # noqa
             return {"lines": [], "impl": [], "nontrivial": True, "tags": ["interp", "raised"],
-                    "oracle": f"ImageInterpolator(order={c['order']}, mode={c['mode']}).evaluate raised "
-                              f"{type(e).__name__}: {e}"}
+                    "oracle": f"ImageInterpolator(order={order}, mode={mode}).evaluate raised "
+                              f"{type(e).__name__}: {e} (image data {sdt}, {c.get('layout', 'C')})"}
         finally:
             I.map_coordinates = o_mc
+        vals = np.asarray(raw, float)
         coords, kshape = cap["mc"]
-        line = (f"interp {n} {aff_txt(srcInv)} {aff_txt(src)} {c['order']} {c['mode']} "
+        line = (f"interp {n} {aff_txt(srcInv)} {aff_txt(src)} {order} {mode} {sdt} "
                 f"{' '.join(map(str, sshape))} {frs(data.ravel().tolist())} {fr(c['cval'])} "
                 f"{len(c['pts'])} {' '.join(frs(p) for p in c['pts'])}")
-        tol = 1e-7 * scale_of(data)
-        # oracle: world points that are voxel centres return the sample (fill value outside, constant mode)
-        fail = None
+        sc = scale_of(data)
+        tol = 1e-7 * sc
+        # oracle: world points that are voxel centres return the sample / the boundary-extended sample
         exp = []
         for p in c["pts"]:
             x = f_apply(srcInv, [Fraction(t) for t in p])
@@ -673,29 +783,29 @@ class C04(PropertyCheck):
                 if inside(q, sshape):
                     exp.append(float(data[q]))
                 else:
-                    exp.append(float(c["cval"]) if c["mode"] == "constant" else None)
+                    e = [ext_index(mode, s, t) for s, t in zip(sshape, q)]
+                    val = float(c["cval"]) if any(t is None for t in e) else float(data[tuple(e)])
+                    exp.append(val if (mode == "constant" or ext_exact(mode, order)) else (val, "loose"))
             else:
                 exp.append(None)
-        if c["mode"] != "wrap":
-            fail = self._check_expected(f"ImageInterpolator(order={c['order']}, mode={c['mode']}).evaluate",
-                                        vals, exp, tol, "the source sample at that world position")
-        tags = ["interp", f"order={c['order']}", "mode=" + c["mode"], f"prepad={kshape[0] - sshape[0]}"]
-        return {"lines": [line], "impl": [("interp", list(kshape), coords.T.ravel().tolist(), vals.ravel().tolist(),
-                                           tol, c["mode"] != "wrap")],
-                "oracle": fail, "nontrivial": True, "tags": tags, "mutated": None}
+        fail = self._check_expected(
+            f"ImageInterpolator(order={order}, mode={mode}, cval={c['cval']}, image data {sdt}).evaluate", vals, exp,
+            tol, "the source sample at that world position (boundary mode / fill value outside)", sc)
+        tags = ["interp", f"order={order}", "mode=" + mode, f"prepad={kshape[0] - sshape[0]}", "sdtype=" + sdt]
+        return {"lines": [line], "impl": [("interp", raw.dtype.name, list(kshape), coords.T.ravel().tolist(),
+                                           vals.ravel().tolist(), tol)],
+                "oracle": fail, "nontrivial": True, "tags": tags, "mutated": snap.changed()}
 
     # ---- nipy.algorithms.registration.resample -------------------------
     def _run_reg(self, c):
-        import ctypes
-        from harness import cshim
         from nipy.core.image.image_spaces import make_xyz_image, xyz_affine
         import importlib
         RR = importlib.import_module("nipy.algorithms.registration.resample")
-        from nipy.algorithms.registration.affine import Affine
+        from nipy.algorithms.registration.affine import Affine, Rigid
         sshape, tshape = c["sshape"], c["tshape"]
         mov, T, ref = F(c["mov"]), F(c["T"]), F(c["ref"])
         movInv = f_inv(mov)
-        const = c["mode"] == "constant"
+        mode, order, sdt, asked = c["mode"], c["order"], c.get("sdtype", "float64"), c["dtype"]
         tk = c["tkind"]
         Th = H(T)
         if tk == "none":
@@ -706,27 +816,25 @@ class C04(PropertyCheck):
             transform = Affine(Th.copy())
             Th = np.array(transform.as_affine(), float)     # what the object really holds
             T = F(Th[:3].tolist())
+        elif tk == "rigidobj":
+            transform = Rigid()
+            transform.param = np.concatenate([Th[:3, 3] / transform.precond[:3], np.zeros(3)])
+            Th = np.array(transform.as_affine(), float)
+            T = F(Th[:3].tolist())
         else:
             transform = _GenericTransform(lambda pts: np.dot(pts, Th[:3, :3].T) + Th[:3, 3])
         t1 = T if c["refvox"] else f_comp(T, ref)
         M = t1 if c["movvox"] else f_comp(movInv, t1)
         if c["task"] == "field":
             # the field is linear in moving-image world coordinates
-            L, fexp, data = self._field_parts(c.get("coef", [1.0, -2.0, 0.5, 3.0]), mov, M, tshape, sshape,
-                                              c["cval"], const)
+            L, fexp, vals = self._field_parts(c, mov, M, tshape, sshape, c["cval"], mode)
+            obj, data = self._typed(c, sshape, vals)
         else:
-            data = make_data(c["dseed"], sshape)
-        moving = make_xyz_image(data.copy(), H(mov), "scanner")
+            obj, data = self._typed(c, sshape)
+        moving = make_xyz_image(obj, H(mov), "scanner")
         reference = (tuple(tshape), H(ref)) if c["ref_as_tuple"] else make_xyz_image(np.zeros(tshape), H(ref), "scanner")
-        lib = cshim.load("registration")
-        lib.cubic_spline_resample3d.restype = None
-        lib.cubic_spline_resample3d.argtypes = [ctypes.py_object, ctypes.py_object, ctypes.c_void_p,
-                                                ctypes.c_int, ctypes.c_int, ctypes.c_int]
-        lib.cubic_spline_transform.restype = None
-        lib.cubic_spline_transform.argtypes = [ctypes.py_object, ctypes.py_object]
-        lib.cubic_spline_sample3d.restype = ctypes.c_double
-        lib.cubic_spline_sample3d.argtypes = [ctypes.c_double] * 3 + [ctypes.py_object] + [ctypes.c_int] * 3
         cap = {}
+        cs_res, cs_s3, cs_tr = cs_glue(cap)
         saved = (RR.affine_transform, RR.map_coordinates, RR._cspline_resample3d, RR._cspline_sample3d,
                  RR._cspline_transform)
 
@@ -740,125 +848,140 @@ class C04(PropertyCheck):
             cap["coords"] = np.array(coords, float)
             return saved[1](inp, coords, **kw)
 
-        def cs_res(out, im, dims, Tvox, mx="zero", my="zero", mz="zero"):
-            cap["routine"] = "cspline_resample3d"
-            Tv = np.ascontiguousarray(np.asarray(Tvox, dtype="double"))
-            cap["mat"] = Tv[:3].copy()
-            im = np.ascontiguousarray(im, dtype="double")
-            lib.cubic_spline_resample3d(out, im, Tv.ctypes.data, 0, 0, 0)
-            return out
-
-        def cs_tr(x):
-            x = np.ascontiguousarray(x, dtype="double")
-            cc = np.zeros(x.shape, dtype=np.double)
-            lib.cubic_spline_transform(cc, x)
-            return cc
-
-        def cs_s3(Rr, Cc, X=0, Y=0, Z=0, mx="zero", my="zero", mz="zero"):
-            cap["routine"] = "cspline_sample3d"
-            X = np.reshape(X, Rr.shape).astype(float); Y = np.reshape(Y, Rr.shape).astype(float)
-            Z = np.reshape(Z, Rr.shape).astype(float)
-            cap["coords"] = np.array([X.ravel(), Y.ravel(), Z.ravel()])
-            flat = Rr.reshape(-1)
-            for k, (x, y, z) in enumerate(zip(X.ravel(), Y.ravel(), Z.ravel())):
-                flat[k] = lib.cubic_spline_sample3d(float(x), float(y), float(z), Cc, 0, 0, 0)
-            return Rr
-
-        snap = Snapshot(data=moving.get_fdata())
+        snap = Snapshot(data=base_array(obj))
         RR.affine_transform, RR.map_coordinates, RR._cspline_resample3d, RR._cspline_sample3d, \
             RR._cspline_transform = at, mc, cs_res, cs_s3, cs_tr
         kw = {}
-        if c["dtype"] is not None:
-            kw["dtype"] = np.dtype(c["dtype"])
-        tags = ["reg", "transform=" + tk, "task=" + c["task"], "z=" + c["zkind"], f"order={c['order']}",
-                "mode=" + c["mode"], f"movvox={int(c['movvox'])}", f"refvox={int(c['refvox'])}",
-                "dtype=" + str(c["dtype"])]
+        if asked is not None:
+            kw["dtype"] = np.dtype(asked)
+        tags = ["reg", "transform=" + tk, "task=" + c["task"], "z=" + c["zkind"], f"order={order}",
+                "mode=" + mode, f"movvox={int(c['movvox'])}", f"refvox={int(c['refvox'])}",
+                "dtype=" + str(asked), "sdtype=" + sdt, "layout=" + c.get("layout", "C")]
         try:
             out = RR.resample(moving, transform, reference, mov_voxel_coords=c["movvox"],
-                              ref_voxel_coords=c["refvox"], interp_order=c["order"], mode=c["mode"],
+                              ref_voxel_coords=c["refvox"], interp_order=order, mode=mode,
                               cval=c["cval"], **kw)
         except Exception as e:   # noqa
             return {"lines": [], "impl": [], "nontrivial": True, "tags": tags + ["raised"],
                     "oracle": f"registration.resample raised {type(e).__name__}: {e} (transform given as {tk}, "
-                              f"order {c['order']}, mode {c['mode']}, dtype {c['dtype']})"}
+                              f"order {order}, mode {mode}, dtype {asked}, image data {sdt}, {c.get('layout', 'C')})"}
         finally:
             RR.affine_transform, RR.map_coordinates, RR._cspline_resample3d, RR._cspline_sample3d, \
                 RR._cspline_transform = saved
         mut = snap.changed()
-        arr = np.asarray(out.get_fdata(), dtype=float)
+        raw = np.asarray(out.get_fdata())
+        arr = np.asarray(raw, dtype=float)
         is_aff = tk != "generic"
         head = (f"reg {aff_txt(movInv)} {aff_txt(mov)} {aff_txt(T)} {aff_txt(ref)} {int(c['movvox'])} "
-                f"{int(c['refvox'])} {int(is_aff)} {c['order']} {c['mode']} {fr(c['cval'])}")
+                f"{int(c['refvox'])} {int(is_aff)} {order} {mode} {fr(c['cval'])}")
+        routine = regroutine(is_aff, order, mode, c["cval"])
         lines, impl = [head + " mat"], []
         if "mat" in cap:
             impl.append(("pathmat", cap.get("routine"), cap["mat"].ravel().tolist()))
         else:
-            # generic branch: recover the voxel map from the coordinates of the first voxels is not
-            # needed: compare the routine, and the coordinates through the lookup below
             impl.append(("path", cap.get("routine")))
+        lines.append(head + f" dtype {sdt} {asked or 'none'} {order}")
+        impl.append(("dtype", routine + " ", raw.dtype.name))
+        out_dt = asked or sdt
         fail = None
         if not np.array_equal(xyz_affine(out), H(ref)):
             fail = "registration.resample: result affine is not the reference affine"
         elif list(arr.shape) != list(tshape):
             fail = f"registration.resample: result shape {arr.shape} is not the reference shape {tuple(tshape)}"
+        elif raw.dtype != np.dtype(out_dt):
+            fail = (f"registration.resample(dtype={asked}) of {sdt} data returned dtype {raw.dtype.name}, "
+                    f"not the requested / the moving image's dtype")
         if fail is None and "coords" in cap:
             idx = all_idx(tshape)
             want = np.array([[float(t) for t in f_apply(M, [Fraction(x) for x in v])] for v in idx]).T
             if cap["coords"].shape != want.shape or not np.allclose(cap["coords"], want, rtol=1e-9, atol=1e-9):
                 fail = ("registration.resample (generic transform): coordinates handed to the interpolator are "
                         "not inv(mov_aff) . T . ref_aff applied to the reference voxels")
-        intd = c["dtype"] in ("int16", "uint8")
-        tol = (0.5 + 1e-6) if intd else (2e-6 if c["dtype"] == "float32" else 1e-7) * scale_of(data)
-
-        def cast_exp(exp):
-            if not intd:
-                return exp
-            info = np.iinfo(c["dtype"])
-            return [None if e is None else float(min(max(e, info.min), info.max)) for e in exp]
-
-        where = (f"registration.resample(transform as {tk}, order {c['order']}, mode {c['mode']}, cval {c['cval']}, "
-                 f"mov_voxel_coords={c['movvox']}, ref_voxel_coords={c['refvox']}, dtype {c['dtype']}, "
-                 f"{c['zkind']} map, routine {cap.get('routine')})")
-        routine = regroutine(is_aff, c["order"], c["mode"], c["cval"])
-        inexact = tk in ("generic", "affobj")
-        border = self._border_mask(M, tshape, sshape) if inexact else [False] * int(np.prod(tshape))
+        intd = out_dt in INT_DTYPES
+        sc = scale_of(data)
+        tol = (0.5 + 1e-6) if intd else (2e-6 if out_dt == "float32" else 1e-7) * sc
+        mtol = (2e-6 if out_dt == "float32" else 1e-7) * sc
+        where = (f"registration.resample(transform as {tk}, order {order}, mode {mode}, cval {c['cval']}, "
+                 f"mov_voxel_coords={c['movvox']}, ref_voxel_coords={c['refvox']}, dtype {asked}, image data {sdt} "
+                 f"[{c.get('layout', 'C')}], {c['zkind']} map, routine {cap.get('routine')})")
+        inexact = tk in ("generic", "affobj", "rigidobj")
+        border = self._border_mask(M, tshape, sshape, mode == "wrap", order == 0) if inexact \
+            else [False] * int(np.prod(tshape))
         skip = [k for k, b_ in enumerate(border) if b_]
 
         def drop(exp):
             return [None if border[k] else e for k, e in enumerate(exp)]
 
+        fast = routine.startswith("cspline")
         if c["task"] == "lookup":
-            exp = drop(self._expect_lookup(M, tshape, data, c["cval"], const))
-            fail = fail or self._check_expected(where, arr, cast_exp(exp), tol,
-                                                "the source sample at the mapped grid point (fill value outside)")
-            lines.append(head + " " + self._lookup_line_tail(tshape, data, c["cval"], const))
-            impl.append(("vals", routine + " ", arr.ravel().tolist(), tol, const, True, c["dtype"], skip))
+            exp = drop(self._expect_lookup(M, tshape, data, c["cval"], mode, order))
+            fail = fail or self._check_expected(where, arr, cast_oracle(exp, out_dt), tol,
+                                                "the source sample at the mapped grid point (boundary mode / fill "
+                                                "value outside)", sc)
+            lines.append(head + " " + self._lookup_tail(sdt, asked, order, mode, tshape, data, c["cval"]))
+            impl.append(("tvals", routine + " ", raw.dtype.name, arr.ravel().tolist(), mtol, skip,
+                         inexact or fast or order > 1))
         elif c["task"] == "field":
-            fail = fail or self._check_expected(where + " of a linear intensity field", arr, cast_exp(drop(fexp)), tol,
-                                                "the field at the mapped world position")
-            lines.append(head + f" field {' '.join(map(str, tshape))} {' '.join(map(str, sshape))} "
-                         f"{aff_txt(L)} {fr(c['cval'])} {1 if const else 0}")
-            impl.append(("vals", routine + " ", arr.ravel().tolist(), tol, True, True, c["dtype"], skip))
+            fail = fail or self._check_expected(where + " of a linear intensity field", arr,
+                                                cast_oracle(drop(fexp), out_dt), tol,
+                                                "the field at the mapped world position (the fill value outside "
+                                                "the field of view)", sc)
+            lines.append(head + " " + self._field_tail(sdt, asked, mode, tshape, sshape, L, c["cval"]))
+            impl.append(("tvals", routine + " ", raw.dtype.name, arr.ravel().tolist(), mtol, skip, inexact))
         else:
-            if not (c["order"] > 1 and not const) and not cap.get("routine", "").startswith("cspline"):
-                ref_ = self._generic_ref(data, M, tshape, c["order"], c["mode"], c["cval"])
-                fail = fail or self._check_expected(where, arr, cast_exp(ref_), max(tol, 1e-6 * scale_of(data)),
-                                                    "the source interpolated at the mapped location")
+            if not fast:
+                ref_ = self._generic_ref(data, M, tshape, order, mode, c["cval"],
+                                         exact=c["task"] == "sub" and not inexact)
+                if c["task"] == "sub":
+                    ref_ = drop(ref_)
+                if order > 1 and mode in ("nearest", "grid-constant"):
+                    ref_ = [None if e is None else (e, "loose") for e in ref_]
+                fail = fail or self._check_expected(where, arr, cast_oracle(ref_, out_dt), max(tol, 1e-6 * sc),
+                                                    "the source interpolated at the mapped location", sc)
+            if c["task"] == "sub" and not inexact:
+                lines.append(head + " " + self._sub_tail(sdt, asked, order, mode, tshape, data, c["cval"]))
+                impl.append(("tvals", routine + " ", raw.dtype.name, arr.ravel().tolist(), mtol, skip, False))
         return {"lines": lines, "impl": impl, "oracle": fail,
                 "nontrivial": True, "tags": tags + ["routine=" + str(cap.get("routine"))], "mutated": mut}
 
-    # ---- VolumeImg -------------------------------------------------------
+    # ---- VolumeImg / VolumeGrid ---------------------------------------------
     def _run_vol(self, c):
         import scipy.ndimage as ndi
         from nipy.labs.datasets.volumes.volume_img import VolumeImg
+        from nipy.labs.datasets.volumes.volume_grid import VolumeGrid
+        from nipy.labs.datasets.transforms.affine_transform import AffineTransform as LabsAffine
         sshape, tshape = c["sshape"], c["tshape"]
         src, tgt = F(c["src"]), F(c["tgt"])
         srcInv = f_inv(src)
         M = f_comp(srcInv, tgt)
-        extra = c["extra"] if c["via"] != "values_in_world" or True else []
-        data = make_data(c["dseed"], list(sshape) + list(extra))
+        extra = c["extra"]
+        sdt = c.get("sdtype", "float64")
+        obj, data = self._typed(c, list(sshape) + list(extra))
         order = 0 if c["interp"] == "nearest" else 3
-        img = VolumeImg(data.copy(), H(src), "w", interpolation=c["interp"])
+        via = c["via"]
+        pre_lines, pre_impl, pre_fail = [], [], None
+        if c.get("w2w") and task_ok_for_w2w(c):
+            # the image is first moved to another world space: same samples, composed affine
+            W = F(c["w2w"])
+            src0 = f_comp(f_inv(W), src)             # so that the composed affine is `src` again
+            if is_exact(src0):
+                base = VolumeImg(obj, H(src0), "w0", interpolation=c["interp"])
+                img0 = base.composed_with_transform(LabsAffine("w0", "w", H(W)))
+                pre_lines.append(f"volcompose {aff_txt(W)} {aff_txt(src0)}")
+                pre_impl.append(("mat", "", np.array(img0.affine, float)[:3].ravel().tolist()))
+                if img0.world_space != "w" or not np.array_equal(np.asarray(img0.get_fdata()), np.asarray(base.get_fdata())):
+                    pre_fail = "composed_with_transform changed the samples or did not adopt the new world space"
+                obj_img = img0
+            else:
+                obj_img = None
+        else:
+            obj_img = None
+        if via.startswith("grid"):
+            img = VolumeGrid(obj, LabsAffine("voxel_space", "w", H(src)), interpolation=c["interp"])
+        elif obj_img is not None:
+            img = obj_img
+        else:
+            img = VolumeImg(obj, H(src), "w", interpolation=c["interp"])
         cap = {}
         o_at = ndi.affine_transform
 
@@ -870,36 +993,57 @@ class C04(PropertyCheck):
             cap["mat"] = np.hstack([A, np.array(offset, float).reshape(3, 1)])
             return o_at(inp, matrix, offset=offset, **kw)
 
-        snap = Snapshot(data=img.get_fdata(), aff=img.affine)
+        snap = Snapshot(data=base_array(obj), aff=H(src))
         ndi.affine_transform = at
-        tags = ["vol", "via=" + c["via"], "task=" + c["task"], "z=" + c["zkind"], "interp=" + c["interp"],
-                f"extra={len(extra)}"]
+        tags = ["vol", "via=" + via, "task=" + c["task"], "z=" + c["zkind"], "interp=" + c["interp"],
+                f"extra={len(extra)}", "sdtype=" + sdt, "layout=" + c.get("layout", "C")]
         try:
-            if c["via"] == "as_volume_img":
+            if via == "as_volume_img":
                 out = img.as_volume_img(affine=H(tgt), shape=tuple(tshape))
-                arr, oaff = out.get_fdata(), out.affine
-            elif c["via"] == "resampled_to_img":
+                raw, oaff = out.get_fdata(), out.affine
+            elif via == "resampled_to_img":
                 timg = VolumeImg(np.zeros(tshape), H(tgt), "w")
                 out = img.resampled_to_img(timg)
-                arr, oaff = out.get_fdata(), out.affine
+                raw, oaff = out.get_fdata(), out.affine
+            elif via == "grid_as_volume_img":
+                out = img.as_volume_img(affine=H(tgt), shape=tuple(tshape))
+                raw, oaff = out.get_fdata(), out.affine
+            elif via == "grid_resampled_to_img":
+                timg = VolumeImg(np.zeros(tshape), H(tgt), "w")
+                out = img.resampled_to_img(timg)
+                raw, oaff = out.get_fdata(), out.affine
+            elif via == "resampled_to_grid":
+                tgrid = VolumeGrid(np.zeros(tshape), LabsAffine("voxel_space", "w", H(tgt)))
+                out = img.resampled_to_img(tgrid)
+                raw, oaff = out.get_fdata(), np.array(out.get_transform().affine, float)
+                if not isinstance(out, VolumeGrid):
+                    pre_fail = pre_fail or "resampled_to_img(VolumeGrid target) did not return an image like the target"
             else:
                 idx = np.array(all_idx(tshape), float).T
                 w = H(tgt)[:3, :3] @ idx + H(tgt)[:3, 3:4]
-                arr = img.values_in_world(w[0].reshape(tshape), w[1].reshape(tshape), w[2].reshape(tshape))
+                raw = img.values_in_world(w[0].reshape(tshape), w[1].reshape(tshape), w[2].reshape(tshape))
                 oaff = None
         except Exception as e:   # noqa
             return {"lines": [], "impl": [], "nontrivial": True, "tags": tags + ["raised"],
-                    "oracle": f"VolumeImg.{c['via']} raised {type(e).__name__}: {e}"}
+                    "oracle": f"{type(img).__name__}.{via} raised {type(e).__name__}: {e} (image data {sdt}, "
+                              f"{c.get('layout', 'C')}, interpolation {c['interp']})"}
         finally:
             ndi.affine_transform = o_at
         mut = snap.changed()
-        arr = np.asarray(arr, float)
-        lines, impl = [], []
-        fail = None
-        if oaff is not None and not np.array_equal(oaff, H(tgt)):
-            fail = f"VolumeImg.{c['via']}: result affine is not the target affine"
+        raw = np.asarray(raw)
+        arr = np.asarray(raw, float)
+        lines, impl = list(pre_lines), list(pre_impl)
+        fail = pre_fail
+        if fail is None and isinstance(img, VolumeImg):
+            cp = img.as_volume_img()                    # no affine, no shape: a copy
+            if not (cp == img) or cp is img:
+                fail = "VolumeImg.as_volume_img() without arguments is not an equal copy of the image"
+        if fail is not None:
+            pass
+        elif oaff is not None and not np.array_equal(oaff, H(tgt)):
+            fail = f"{type(img).__name__}.{via}: result affine is not the target affine"
         elif list(arr.shape) != list(tshape) + list(extra):
-            fail = f"VolumeImg.{c['via']}: result shape {arr.shape}, expected {tuple(tshape) + tuple(extra)}"
+            fail = f"{type(img).__name__}.{via}: result shape {arr.shape}, expected {tuple(tshape) + tuple(extra)}"
         t = f_ident(3) if tgt == src else M
         lin = [row[:3] + [Fraction(0)] for row in t]
         linInv = f_inv(lin)
@@ -907,30 +1051,41 @@ class C04(PropertyCheck):
         if linInv is not None:
             head = (f"volimg {aff_txt(srcInv)} {aff_txt(src)} {aff_txt(tgt)} "
                     f"{' '.join(frs(r[:3]) for r in linInv)}")
+        pre = "*"           # values_in_world / VolumeGrid: map_coordinates, no matrix to compare
         if "mat" in cap and head is not None:
+            pre = "diag " if cap["diag"] else "full "
             lines.append(head + " mat")
-            impl.append(("pathmat", "diag" if cap["diag"] else "full", cap["mat"].ravel().tolist()))
-        tol = 1e-7 * scale_of(data)
+            impl.append(("pathmat", pre.strip(), cap["mat"].ravel().tolist()))
+        if head is not None:
+            lines.append(head + f" dtype {sdt} none {order}")
+            impl.append(("dtype", pre, raw.dtype.name))
+        sc = scale_of(data)
+        tol = (2e-6 if sdt == "float32" else 1e-7) * sc
         flat = arr.reshape(int(np.prod(tshape)), -1)
         dflat = data.reshape(list(sshape) + [-1])
-        where = f"VolumeImg.{c['via']}(interpolation {c['interp']}, {c['zkind']} map, data ndim {data.ndim})"
+        where = (f"{type(img).__name__}.{via}(interpolation {c['interp']}, {c['zkind']} map, image data {sdt} "
+                 f"[{c.get('layout', 'C')}], data ndim {data.ndim})")
         if fail is None:
             for e in range(flat.shape[1]):
                 if c["task"] == "lookup":
-                    exp = self._expect_lookup(M, tshape, dflat[..., e], 0.0, True)
+                    exp = self._expect_lookup(M, tshape, dflat[..., e], 0.0, "constant", order)
                     what = "the source sample at the mapped grid point (0 outside)"
                     t_ = tol
                 else:
-                    exp = self._generic_ref(dflat[..., e], M, tshape, order, "constant", 0.0)
+                    exp = self._generic_ref(dflat[..., e], M, tshape, order, "constant", 0.0,
+                                            exact=c["zkind"] == "subvoxel")
                     what = "the source interpolated at the mapped location"
-                    t_ = 1e-6 * scale_of(data)
+                    t_ = max(tol, 1e-6 * sc)
                 fail = self._check_expected(where + (f", volume {e}" if flat.shape[1] > 1 else ""),
-                                            flat[:, e], exp, t_, what)
+                                            flat[:, e], exp, t_, what, sc)
                 if fail:
                     break
-        if c["task"] == "lookup" and head is not None and c["via"] != "values_in_world" and fail is None:
-            lines.append(head + " " + self._lookup_line_tail(tshape, dflat[..., 0], 0.0))
-            impl.append(("vals", "diag " if cap.get("diag") else "full ", flat[:, 0].tolist(), tol, True, True))
+        if c["task"] == "lookup" and head is not None and fail is None:
+            lines.append(head + " " + self._lookup_tail(sdt, None, order, "constant", tshape, dflat[..., 0], 0.0))
+            impl.append(("tvals", pre, raw.dtype.name, flat[:, 0].tolist(), tol, [], False))
+        if c["zkind"] == "subvoxel" and order == 0 and head is not None and fail is None:
+            lines.append(head + " " + self._sub_tail(sdt, None, 0, "constant", tshape, dflat[..., 0], 0.0))
+            impl.append(("tvals", pre, raw.dtype.name, flat[:, 0].tolist(), tol, [], False))
         return {"lines": lines, "impl": impl, "oracle": fail, "nontrivial": True, "tags": tags, "mutated": mut}
 
     def _run_xyz(self, c):
@@ -941,12 +1096,12 @@ class C04(PropertyCheck):
         if c["rot"]:
             aff[0][1] += Fraction(1, 2)
             aff[1][0] += Fraction(1, 4)
-        data = make_data(c["dseed"], sshape)
-        img = VolumeImg(data.copy(), H(aff), "w")
-        snap = Snapshot(data=img.get_fdata(), aff=img.affine)
+        obj, data = self._typed(c, sshape)
+        img = VolumeImg(obj, H(aff), "w")
+        snap = Snapshot(data=base_array(obj), aff=img.affine)
         line = f"xyz {aff_txt(aff)} {' '.join(map(str, sshape))} {frs(data.ravel().tolist())}"
         cols_ok = all(sum(1 for i in range(3) if abs(aff[i][j]) > Fraction(1, 1000)) == 1 for j in range(3))
-        tags = ["xyz", "rot" if not cols_ok else "axis-aligned"]
+        tags = ["xyz", "rot" if not cols_ok else "axis-aligned", "sdtype=" + c.get("sdtype", "float64")]
         try:
             out = img.xyz_ordered()
         except CompositionError:
@@ -958,14 +1113,15 @@ class C04(PropertyCheck):
                     "oracle": f"VolumeImg.xyz_ordered raised {type(e).__name__}: {e}"}
         mut = snap.changed()
         oaff = np.array(out.affine, float)
-        odata = np.asarray(out.get_fdata(), float)
+        oraw = np.asarray(out.get_fdata())
+        odata = np.asarray(oraw, float)
         fail = None
-        if not cols_ok:
-            fail = None      # the guard counts entries above 1e-3 per column; rotated inputs reaching here are its business
-        else:
+        if cols_ok:
             A = oaff[:3, :3]
             if not (np.array_equal(A, np.diag(np.diag(A))) and np.all(np.diag(A) > 0)):
                 fail = "xyz_ordered: resulting affine is not diagonal positive"
+            elif oraw.dtype != np.dtype(c.get("sdtype", "float64")):
+                fail = f"xyz_ordered (no resampling) changed the data dtype to {oraw.dtype.name}"
             else:
                 inv = f_inv(aff)
                 oa = F(oaff[:3].tolist())
@@ -990,7 +1146,9 @@ class C04(PropertyCheck):
         sshape, nt = c["sshape"], c["nt"]
         aff = F(c["aff"])
         affInv = f_inv(aff)
-        data = make_data(c["dseed"], list(sshape) + [nt])
+        sdt = c.get("sdtype", "float64")
+        arr4 = make_typed(c["dseed"], list(sshape) + [nt], sdt)
+        data = np.asarray(arr4, float)
         transforms = []
         Ts = []
         for s in c["shifts"]:
@@ -1000,11 +1158,29 @@ class C04(PropertyCheck):
             r.param = np.concatenate([np.array(tw) / r.precond[:3], np.zeros(3)]) if any(s) else r.param
             transforms.append(r)
             Ts.append(F(np.array(r.as_affine(), float)[:3].tolist()))
-        tags = ["realign", f"nt={nt}", "shifted" if any(any(s) for s in c["shifts"]) else "identity"]
+        tags = ["realign", f"nt={nt}", "shifted" if any(any(s) for s in c["shifts"]) else "identity", "sdtype=" + sdt,
+                "lazy" if c.get("lazy") else "array"]
+        _, cs_s3, cs_tr = cs_glue()
+        saved = (G._cspline_sample3d, G._cspline_transform, G._cspline_sample4d)
+        G._cspline_sample3d, G._cspline_transform, G._cspline_sample4d = cs_s3, cs_tr, cs_glue4()
+        tin, tr = bool(c.get("tinterp")), float(c.get("tr", 1.0))
+        hi = None
+
+        def source():
+            return (lambda: arr4.copy()) if c.get("lazy") else arr4.copy()
         try:
-            im4d = G.Image4d(data.copy(), H(aff), tr=1.0, slice_times=0.0, slice_info=(2, 1))
-            res = G.resample4d(im4d, transforms, time_interp=False)
-            im4d = G.Image4d(data.copy(), H(aff), tr=1.0, slice_times=0.0, slice_info=(2, 1))
+            # synchronous slices (slice_times 0): with time interpolation every scan is sampled at its
+            # own time point, so the 4-D spline is evaluated at grid points of the time axis too
+            im4d = G.Image4d(source(), H(aff), tr=tr, slice_times=0.0, slice_info=(2, 1))
+            res = G.resample4d(im4d, transforms, time_interp=tin)
+            if not tin:
+                # the high-level class: Realign4d(...).resample(run) with the transforms given
+                from nipy.core.image.image_spaces import make_xyz_image, xyz_affine
+                rl = G.Realign4d(make_xyz_image(arr4.copy(), H(aff), "scanner"), tr=tr, slice_info=(2, 1))
+                rl._transforms = [transforms]
+                him = rl.resample(0)
+                hi = (np.asarray(him.get_fdata(), float), np.array(xyz_affine(him), float))
+            im4d = G.Image4d(source(), H(aff), tr=tr, slice_times=0.0, slice_info=(2, 1))
             alg = G.Realign4dAlgorithm(im4d, transforms=transforms, time_interp=False, subsampling=(1, 1, 1),
                                        borders=(0, 0, 0))
             for t in range(nt):
@@ -1013,36 +1189,213 @@ class C04(PropertyCheck):
             xyz = np.array(alg.xyz)
         except Exception as e:   # noqa
             return {"lines": [], "impl": [], "nontrivial": True, "tags": tags + ["raised"],
-                    "oracle": f"resample4d / Realign4dAlgorithm.resample raised {type(e).__name__}: {e}"}
+                    "oracle": f"resample4d / Realign4dAlgorithm.resample raised {type(e).__name__}: {e} "
+                              f"(image data {sdt})"}
+        finally:
+            G._cspline_sample3d, G._cspline_transform, G._cspline_sample4d = saved
+        rawdt = np.asarray(res).dtype.name
         res = np.asarray(res, float)
-        tol = 1e-7 * scale_of(data)
+        sc = scale_of(data)
+        tol = 1e-7 * sc
         fail = None
+        tags.append("time_interp" if tin else "no_time_interp")
+        if hi is not None:
+            if not np.array_equal(hi[1], H(aff)):
+                fail = "Realign4d.resample: the resampled run does not carry the run's affine"
+            elif hi[0].shape != res.shape or not np.allclose(hi[0], res, rtol=0, atol=tol):
+                fail = "Realign4d.resample(run) differs from resample4d with the same transforms"
         lines, impl = [], []
         for t in range(nt):
             M = f_comp(affInv, f_comp(Ts[t], aff))
-            exp = self._expect_lookup(M, sshape, data[..., t], 0.0, True)
+            head = f"realign {aff_txt(affInv)} {aff_txt(aff)} {aff_txt(Ts[t])}"
+            exp = self._expect_lookup(M, sshape, data[..., t], 0.0, "constant", 3)
             fail = fail or self._check_expected(
-                f"resample4d(time_interp=False), scan {t}, whole-voxel shift {c['shifts'][t]}", res[..., t], exp,
-                tol, "the input sample at the shifted grid point (0 outside)")
+                f"resample4d(time_interp={tin}), scan {t}, whole-voxel shift {c['shifts'][t]}, image data {sdt}",
+                res[..., t], exp, tol, "the input sample at the shifted grid point (0 outside)", sc)
             if all(x is not None for x in exp):
-                lines.append(f"realign {aff_txt(affInv)} {aff_txt(aff)} {aff_txt(Ts[t])} "
-                             + self._lookup_line_tail(sshape, data[..., t], 0.0))
-                impl.append(("vals", "", res[..., t].ravel().tolist(), tol, True, True))
-            # working-grid resampling uses 'reflect': only points mapped inside are compared
+                lines.append(head + " " + self._lookup_tail(sdt, None, 3, "constant", sshape, data[..., t], 0.0))
+                impl.append(("tvals", "", rawdt, res[..., t].ravel().tolist(), tol, [], True))
+            # working grid: cubic_spline.c 'reflect' on every axis — inside points are a property
+            # clause, mirrored points a correspondence with the model's C boundary logic
+            pts, got = [], []
             for k, v in enumerate(xyz):
                 x = f_apply(M, [Fraction(int(a)) for a in v])
-                if all(a.denominator == 1 for a in x) and inside(tuple(int(a) for a in x), sshape):
-                    e = data[tuple(int(a) for a in x) + (t,)]
-                    if fail is None and abs(work[k, t] - e) > tol:
-                        fail = (f"Realign4dAlgorithm.resample({t}): grid point {tuple(int(a) for a in v)} holds "
-                                f"{work[k, t]!r}, the input sample at the mapped point is {e!r}")
+                if all(a.denominator == 1 for a in x):
+                    p = tuple(int(a) for a in x)
+                    pts.append(p); got.append(float(work[k, t]))
+                    if inside(p, sshape):
+                        e = data[p + (t,)]
+                        if fail is None and abs(work[k, t] - e) > tol:
+                            fail = (f"Realign4dAlgorithm.resample({t}): grid point {tuple(int(a) for a in v)} holds "
+                                    f"{work[k, t]!r}, the input sample at the mapped point is {e!r}")
+            if pts:
+                lines.append(f"cslookup 2 2 2 {' '.join(map(str, sshape))} {frs(data[..., t].ravel().tolist())} "
+                             f"{len(pts)} {' '.join(' '.join(map(str, p)) for p in pts)}")
+                impl.append(("rats", got, tol))
         return {"lines": lines, "impl": impl, "oracle": fail, "nontrivial": True, "tags": tags, "mutated": None}
+
+    # ---- ties of the model's building blocks to SciPy / NumPy / the C --------------------
+    def _run_bidx(self, c):
+        from scipy.ndimage import map_coordinates
+        n, mode, idx = c["len"], c["mode"], c["idx"]
+        a = np.arange(n, dtype=float)
+        obs = []
+        for order in (0, 1):
+            v = map_coordinates(a, [np.array(idx, float)], order=order, mode=mode, cval=-1.0)
+            obs.append(" ".join("x" if t == -1 else str(int(t)) for t in v))
+        fail = None
+        mine = " ".join("x" if ext_index(mode, n, i) is None else str(ext_index(mode, n, i)) for i in idx)
+        if obs[0] != obs[1]:
+            fail = None       # SciPy's own orders disagree: nothing the property says; the tie reports it
+        line = f"bidx {mode} {n} {len(idx)} {' '.join(map(str, idx))}"
+        return {"lines": [line, line, line], "impl": [("str", obs[0]), ("str", obs[1]), ("str", mine)],
+                "oracle": fail, "nontrivial": True, "tags": ["bidx", "mode=" + mode], "mutated": None}
+
+    def _run_cast(self, c):
+        from scipy.ndimage import affine_transform
+        import importlib
+        RR = importlib.import_module("nipy.algorithms.registration.resample")
+        dt, vals = c["dtype"], np.array(c["vals"], float)
+        snap = Snapshot(vals=vals)
+        even = np.asarray(RR.cast_array(vals, np.dtype(dt)))
+        away = np.zeros(len(vals), dtype=dt)
+        affine_transform(vals, [1.0], order=1, output=away)
+        fail = None
+        if even.dtype != np.dtype(dt):
+            fail = f"cast_array(dtype={dt}) returned dtype {even.dtype.name}"
+        elif dt in INT_DTYPES:
+            info = np.iinfo(dt)
+            for v, e in zip(vals, even.astype(float)):
+                w = min(max(v, float(info.min)), float(info.max))
+                if abs(e - w) > 0.5:
+                    fail = f"cast_array({v!r}, {dt}) = {e!r}: not the nearest integer of the clipped value"
+                    break
+        tol = 0 if dt in INT_DTYPES else (1e-6 if dt == "float32" else 0)
+        lines = [f"cast half-even {dt} {len(vals)} {frs(vals.tolist())}",
+                 f"cast half-away {dt} {len(vals)} {frs(vals.tolist())}"]
+        impl = [("rats", even.astype(float).tolist(), tol * scale_of(vals)),
+                ("rats", away.astype(float).tolist(), tol * scale_of(vals))]
+        return {"lines": lines, "impl": impl, "oracle": fail, "nontrivial": True,
+                "tags": ["cast", "dtype=" + dt], "mutated": snap.changed()}
+
+    def _run_cs(self, c):
+        shape, modes = c["shape"], c["modes"]
+        lib = cs_lib()
+        sdt = c.get("sdtype", "float64")
+        arr = make_typed(c["dseed"], shape, sdt)
+        obj = lay_out(arr, c.get("layout", "C"))
+        data = np.asarray(arr, float)
+        snap = Snapshot(data=obj)
+        coef = np.zeros(shape, dtype=np.double)
+        lib.cubic_spline_transform(coef, obj)            # any dtype / strides: PyArray_CopyInto
+        sc = scale_of(data)
+        # (1) the sampler on explicit (dyadic) coefficients — the data themselves — at arbitrary points
+        cd = np.ascontiguousarray(data)
+        got1 = [lib.cubic_spline_sample3d(float(p[0]), float(p[1]), float(p[2]), cd, *modes) for p in c["pts"]]
+        line1 = (f"cs3 C {modes[0]} {modes[1]} {modes[2]} {shape[0]} {shape[1]} {shape[2]} "
+                 f"{frs(cd.ravel().tolist())} {len(c['pts'])} {' '.join(frs(p) for p in c['pts'])}")
+        # (2) pre-filter + sampler at grid points: the looked-up sample under the C boundary modes
+        lat = [p for p in c["pts"] if all(float(t).is_integer() for t in p)]
+        lines, impl = [line1], [("rats", got1, 1e-9 * sc)]
+        fail = None
+        if lat:
+            got2 = [lib.cubic_spline_sample3d(float(p[0]), float(p[1]), float(p[2]), coef, *modes) for p in lat]
+            exp = []
+            for p in lat:
+                q = [cs_ext_index(m, s - 1, int(t)) for m, s, t in zip(modes, shape, p)]
+                exp.append(0.0 if any(t is None for t in q) else float(data[tuple(q)]))
+            for p, g, e in zip(lat, got2, exp):
+                if abs(g - e) > 1e-7 * sc:
+                    fail = (f"cubic_spline_transform + cubic_spline_sample3d(modes {modes}) at grid point {p} of a "
+                            f"{shape} {sdt} array [{c.get('layout', 'C')}] gives {g!r}, the sample there is {e!r}")
+                    break
+            lines.append(f"cslookup {modes[0]} {modes[1]} {modes[2]} {' '.join(map(str, shape))} "
+                         f"{frs(data.ravel().tolist())} {len(lat)} "
+                         f"{' '.join(' '.join(str(int(t)) for t in p) for p in lat)}")
+            impl.append(("rats", got2, 1e-7 * sc))
+        # (3) the hypothesis IsSplineCoef3: three-tap operator along the three axes gives the samples back
+        if fail is None:
+            rec = coef.copy()
+            for ax, s in enumerate(shape):
+                idx = np.arange(s)
+                lo = np.array([cs_ext_index(2, s - 1, int(i) - 1) if s > 1 else 0 for i in idx])
+                hi = np.array([cs_ext_index(2, s - 1, int(i) + 1) if s > 1 else 0 for i in idx])
+                rec = (np.take(rec, lo, axis=ax) + 4 * rec + np.take(rec, hi, axis=ax)) / 6.0
+            if np.max(np.abs(rec - data)) > 1e-7 * sc:
+                fail = (f"cubic_spline_transform of a {shape} {sdt} array [{c.get('layout', 'C')}]: the B-spline "
+                        f"with these coefficients does not interpolate the samples "
+                        f"(max error {np.max(np.abs(rec - data))!r})")
+        return {"lines": lines, "impl": impl, "oracle": fail, "nontrivial": True,
+                "tags": ["cs", "modes=" + "".join(map(str, modes)), "sdtype=" + sdt], "mutated": snap.changed()}
+
+    def _run_refuse(self, c):
+        """requests that must be refused: mapping arrays of the wrong shape, 4-D references"""
+        from nipy.core.api import AffineTransform, CoordinateSystem, Image
+        from nipy.core.image.image_spaces import make_xyz_image
+        import nipy.algorithms.resample as R
+        import importlib
+        RR = importlib.import_module("nipy.algorithms.registration.resample")
+        n, rows, cols, what = c["n"], c["rows"], c["cols"], c["what"]
+        rs = np.random.RandomState(c["dseed"])
+        tags = ["refuse", "what=" + what]
+        good = None
+        line = None
+        try:
+            if what.startswith("resample"):
+                img = Image(rs.rand(*([3] * n)), AffineTransform(CoordinateSystem("ijk"[:n]), CoordinateSystem("xyz"[:n]),
+                                                                 np.eye(n + 1)))
+                tcm = AffineTransform(CoordinateSystem("ijk"[:n]), CoordinateSystem("xyz"[:n]), np.eye(n + 1))
+                Mx = np.eye(max(rows, cols) + 1)[:rows, :cols].copy()
+                good = (rows, cols) == (n + 1, n + 1)
+                if what == "resample-pair":
+                    mapping = (Mx[:rows - 1, :cols - 1].copy(), Mx[:rows - 1, cols - 1].copy())
+                    good = (rows - 1, cols - 1) == (n, n)
+                else:
+                    mapping = Mx
+                line = f"resampleshape {n} {rows} {cols}"
+                out = R.resample(img, tcm, mapping, (3,) * n, order=1)
+            elif what == "reg-matrix":
+                mov = make_xyz_image(rs.rand(3, 3, 3), np.eye(4), "scanner")
+                Mx = np.eye(6)[:rows + (4 - n - 1), :cols + (4 - n - 1)].copy()
+                good = Mx.shape == (4, 4)
+                out = RR.resample(mov, Mx, interp_order=1)
+            elif what == "reg-ref4d":
+                mov = make_xyz_image(rs.rand(3, 3, 3), np.eye(4), "scanner")
+                good = False
+                out = RR.resample(mov, None, ((3, 3, 3, 2), np.eye(4)), interp_order=1)
+            else:
+                a = Image(rs.rand(*([3] * n)), AffineTransform(CoordinateSystem("ijk"[:n]), CoordinateSystem("xyz"[:n]),
+                                                               np.eye(n + 1)))
+                wn = ["x", "y", "z", "t"][:n + 1]
+                aff2 = np.vstack([np.eye(n + 1)[:n], np.zeros((1, n + 1)), np.eye(n + 1)[n:]])
+                b = Image(rs.rand(*([3] * n)), AffineTransform(CoordinateSystem("ijk"[:n]), CoordinateSystem(wn), aff2))
+                good = False
+                out = R.resample_img2img(a, b, order=1)
+        except Exception as e:   # noqa
+            if good:
+                return {"lines": [], "impl": [], "nontrivial": True, "tags": tags + ["raised"],
+                        "oracle": f"{what}: a well-formed request ({rows}x{cols} mapping, n={n}) raised "
+                                  f"{type(e).__name__}: {e}"}
+            lines = [line] if (what.startswith("resample") and line) else []
+            impl = [("err", errname(e))] if lines else []
+            return {"lines": lines, "impl": impl, "oracle": None, "nontrivial": True, "tags": tags + ["refused"],
+                    "mutated": None}
+        if not good:
+            return {"lines": [], "impl": [], "nontrivial": True, "tags": tags + ["accepted"],
+                    "oracle": f"{what}: a malformed request ({rows}x{cols} mapping for n={n} / 4-D reference / "
+                              f"mismatched world dimension) was accepted and an image of shape "
+                              f"{np.asarray(out.get_fdata()).shape} returned"}
+        lines = [line] if line else []
+        return {"lines": lines, "impl": [("str", "ok")] if lines else [], "oracle": None, "nontrivial": True,
+                "tags": tags + ["accepted-ok"], "mutated": None}
 
     # ------------------------------------------------------------------
     def compare(self, case, impl_obs, model_out):
         kind = impl_obs[0]
         if kind == "err":
             return None if model_out == impl_obs[1] else f"impl={impl_obs[1]} model={model_out}"
+        if kind == "str":
+            return None if model_out == impl_obs[1] else f"impl={impl_obs[1]!r} model={model_out!r}"
         if model_out.startswith(("error", "bad-op")):
             return f"model says {model_out}"
         if kind == "path":
@@ -1073,46 +1426,68 @@ class C04(PropertyCheck):
                 if abs(a - b) > 1e-9 * max(1.0, abs(b)):
                     return f"coordinate {k}: impl={a!r} model={b!r}"
             return None
-        if kind == "vals":
-            pre, vals, tol, use_out, use_in = impl_obs[1], impl_obs[2], impl_obs[3], impl_obs[4], impl_obs[5]
-            dtype = impl_obs[6] if len(impl_obs) > 6 else None
-            skip = set(impl_obs[7]) if len(impl_obs) > 7 else ()
-            if pre:
+        if kind in ("dtype", "tvals"):
+            pre = impl_obs[1]
+            if pre == "*":
+                model_out = model_out.split(" ", 1)[1] if " " in model_out else ""
+            elif pre:
                 if not model_out.startswith(pre):
                     return f"routine impl={pre.strip()} model={model_out.split(' ', 1)[0]}"
                 model_out = model_out[len(pre):]
+            if model_out.startswith(("error", "bad-op")):
+                return f"model says {model_out}"
             toks = model_out.split()
+            if not toks or toks[0] != impl_obs[2]:
+                return f"output dtype impl={impl_obs[2]} model={toks[0] if toks else None}"
+            if kind == "dtype":
+                return None
+            vals, tol, skip, inexact = impl_obs[3], impl_obs[4], set(impl_obs[5]), impl_obs[6]
+            toks = toks[1:]
             if len(toks) != len(vals):
                 return f"sample count impl={len(vals)} model={len(toks)}"
-            if not use_in:
-                return None
+            intd = impl_obs[2] in INT_DTYPES
             for k, (a, t) in enumerate(zip(vals, toks)):
                 if t == "x" or k in skip:
                     continue
-                b = float(Fraction(t))
-                if dtype in ("int16", "uint8"):
-                    info = np.iinfo(dtype)
-                    b = min(max(b, info.min), info.max)
-                if abs(a - b) > tol:
+                tie = t.endswith("~")
+                b = float(Fraction(t.rstrip("~")))
+                if intd:
+                    # exact arithmetic: the rounding rule decides ties; inexact: either neighbour
+                    # (inexact: Affine objects rebuilt from a matrix, spline pre-filters — a value within
+                    # rounding error of a tie may go either way)
+                    lim = 1.0 if inexact else 0.0
+                    if abs(a - b) > lim:
+                        return f"target voxel #{k}: impl={a!r} model={b!r} (dtype {impl_obs[2]})"
+                elif abs(a - b) > tol:
                     return f"target voxel #{k}: impl={a!r} model={b!r}"
             return None
+        if kind == "rats":
+            vals, tol = impl_obs[1], impl_obs[2]
+            mv = [float(x) for x in parse_rats(model_out)]
+            if len(mv) != len(vals):
+                return f"value count impl={len(vals)} model={len(mv)}"
+            for k, (a, b) in enumerate(zip(vals, mv)):
+                if abs(a - b) > tol:
+                    return f"value #{k}: impl={a!r} model={b!r}"
+            return None
         if kind == "interp":
-            kshape, coords, vals, tol, use = impl_obs[1:6]
+            dt, kshape, coords, vals, tol = impl_obs[1:6]
             parts = model_out.split(" | ")
-            if len(parts) != 3:
+            if len(parts) != 4:
                 return f"unparsable model output {model_out[:80]!r}"
-            if parts[0].split() != [str(s) for s in kshape]:
-                return f"knot array shape impl={kshape} model={parts[0]}"
-            mc = [float(x) for x in parse_rats(parts[1])]
+            if parts[0].strip() != dt:
+                return f"output dtype impl={dt} model={parts[0]}"
+            if parts[1].split() != [str(s) for s in kshape]:
+                return f"knot array shape impl={kshape} model={parts[1]}"
+            mc = [float(x) for x in parse_rats(parts[2])]
             if len(mc) != len(coords) or any(abs(a - b) > 1e-9 * max(1.0, abs(b)) for a, b in zip(coords, mc)):
                 return f"coordinates impl={coords[:6]} model={mc[:6]}"
-            toks = parts[2].split()
+            toks = parts[3].split()
             if len(toks) != len(vals):
                 return f"value count impl={len(vals)} model={len(toks)}"
-            if use:
-                for k, (a, t) in enumerate(zip(vals, toks)):
-                    if t != "x" and abs(a - float(Fraction(t))) > tol:
-                        return f"point #{k}: impl={a!r} model={float(Fraction(t))!r}"
+            for k, (a, t) in enumerate(zip(vals, toks)):
+                if t != "x" and abs(a - float(Fraction(t))) > tol:
+                    return f"point #{k}: impl={a!r} model={float(Fraction(t))!r}"
             return None
         if kind == "xyz":
             parts = model_out.split(" | ")
@@ -1130,6 +1505,9 @@ class C04(PropertyCheck):
         return "unknown observation kind"
 
     def shrink(self, case):
+        if case.get("layout", "C") != "C":
+            c = dict(case); c["layout"] = "C"
+            yield c
         for key in ("sshape", "tshape"):
             if key in case:
                 for i, s in enumerate(case[key]):
@@ -1145,16 +1523,22 @@ class C04(PropertyCheck):
         if case.get("dtype"):
             c = dict(case); c["dtype"] = None
             yield c
+        if case.get("pts") and len(case["pts"]) > 1:
+            for k in range(len(case["pts"])):
+                c = dict(case); c["pts"] = case["pts"][:k] + case["pts"][k + 1:]
+                yield c
+        if case.get("vals") and len(case["vals"]) > 1:
+            for k in range(len(case["vals"])):
+                c = dict(case); c["vals"] = case["vals"][:k] + case["vals"][k + 1:]
+                yield c
+        if case.get("idx") and len(case["idx"]) > 1:
+            h = len(case["idx"]) // 2
+            for part in (case["idx"][:h], case["idx"][h:]):
+                c = dict(case); c["idx"] = part
+                yield c
 
     def classify(self, case, failure):
         return None
-
-
-def regroutine(is_aff, order, mode, cval):
-    fast = (order, mode, cval) == (3, "constant", 0)
-    if is_aff:
-        return "cspline_resample3d" if fast else "affine_transform"
-    return "cspline_sample3d" if fast else "map_coordinates"
 
 
 CHECK = C04()
